@@ -21,9 +21,9 @@ Ltac step_leaves H :=
   try (injection H as H); try subst.
 
 Ltac simp_state :=
-  cbn [calls ncalls chans srv cb_pres cb_inv set_call add_call set_chan set_srv log_pres log_invs take
-       c_kind c_addr c_phase c_done c_replied with_phase with_done with_replied returned
-       ch_made ch_entry ch_joined ch_jq ch_dep with_entry with_joined with_jq with_dep] in *.
+  cbn [calls ncalls chans nchans table srv cb_pres cb_inv set_call add_call set_chan add_chan set_table set_srv log_pres log_invs take
+       c_kind c_chan c_phase c_done c_replied with_phase with_done with_replied returned
+       ch_made ch_addr ch_joined ch_jq ch_dep with_joined with_jq with_dep departed] in *.
 
 (* ---------------------------------------------------------------- basics *)
 
@@ -53,7 +53,7 @@ Qed.
 (* the model's own view of [take] *)
 Lemma take_unfold : forall s a,
   take s a = match ch_jq (chans s a) with
-             | [] => log_pres (set_srv s SIdle) a
+             | [] => log_pres (set_srv s SIdle) (ch_addr (chans s a))
              | k :: rest => set_srv (set_chan s a (with_jq (chans s a) rest)) (SOffer k)
              end.
 Proof. reflexivity. Qed.
@@ -77,7 +77,7 @@ Proof. intros s a. unfold take. destruct (ch_jq (chans s a)); reflexivity. Qed.
 Lemma step_cb_inv : forall s l s', step s l = Some s' ->
   cb_inv s' = cb_inv s ++ match l with LDeliver (Msg cs) => msg_calls cs | _ => [] end.
 Proof.
-  intros s l s' H. destruct l as [k kd a|k|k|k o|k|st|  |k|a b];
+  intros s l s' H. destruct l as [hn an|k kd a|k|k|k o|k|st|  |k|a b];
     step_leaves H; simp_state; rewrite ?take_cb_inv; rewrite ?app_nil_r; reflexivity.
 Qed.
 
@@ -145,7 +145,7 @@ Proof.
   intros tr s H Hs. rewrite (invites_exact tr s H). unfold delivered_of, invites_of.
   clear H. induction tr as [|l tr IH]; [reflexivity|].
   cbn [flat_map]. rewrite IH by (intros cs Hin; apply Hs; right; exact Hin). f_equal.
-  destruct l as [| | | | |st| | |]; try reflexivity. destruct st; try reflexivity.
+  destruct l as [| | | | | |st| | |]; try reflexivity. destruct st; try reflexivity.
   apply msg_calls_single. apply Hs. left. reflexivity.
 Qed.
 
@@ -171,10 +171,9 @@ Ltac eqb_cases :=
 Record wf (s : state) : Prop := mkwf {
   wf_bound : forall k c, calls s k = Some c -> k < ncalls s;
   wf_jq : forall a k, In k (ch_jq (chans s a)) ->
-          exists c, calls s k = Some c /\ c_addr c = a /\ c_kind c = KJoin;
+          exists c, calls s k = Some c /\ c_chan c = a /\ c_kind c = KJoin;
   wf_offer : forall k, srv s = SOffer k ->
-          exists c, calls s k = Some c /\ c_kind c = KJoin /\ ch_entry (chans s (c_addr c)) = true;
-  wf_joined : forall a, ch_joined (chans s a) = true -> ch_entry (chans s a) = true }.
+          exists c, calls s k = Some c /\ c_kind c = KJoin /\ True }.
 
 Lemma wf_init : wf init.
 Proof.
@@ -186,10 +185,10 @@ Proof. intros a b H. apply andb_true_iff in H. tauto. Qed.
 Lemma andb_true_r' : forall a b, a && b = true -> b = true.
 Proof. intros a b H. apply andb_true_iff in H. tauto. Qed.
 
-(* [take] preserves well-formedness when the address has an entry *)
-Lemma wf_take : forall s a, wf s -> ch_entry (chans s a) = true -> wf (take s a).
+(* [take] preserves well-formedness *)
+Lemma wf_take : forall s a, wf s -> wf (take s a).
 Proof.
-  intros s a [W1 W2 W3 W4] He. rewrite take_unfold.
+  intros s a [W1 W2 W3]. rewrite take_unfold.
   destruct (ch_jq (chans s a)) as [|k rest] eqn:Eq.
   - constructor; simp_state; intros; try discriminate; eauto.
   - constructor; simp_state.
@@ -199,8 +198,7 @@ Proof.
       * apply W2. exact Hin.
     + intros k0 Hk. injection Hk as <-.
       destruct (W2 a k) as [c [Hc [Ha Hk]]]; [rewrite Eq; left; reflexivity|].
-      exists c. split; [exact Hc|]. split; [exact Hk|]. rewrite Ha, Nat.eqb_refl. simp_state. exact He.
-    + intros a0. destruct (Nat.eqb a0 a) eqn:Ea; [apply Nat.eqb_eq in Ea; subst a0; simp_state|]; apply W4.
+      exists c. split; [exact Hc|]. split; [exact Hk|exact I].
 Qed.
 Ltac same_call :=
   repeat match goal with
@@ -233,21 +231,19 @@ Ltac wf_fin W1 W2 W3 W4 :=
   [ intros kx cx Hc0; eqb_cases; subst; try (injection Hc0 as <-); try lia;
     try (apply W1 in Hc0; lia); try (match goal with E : calls _ _ = Some _ |- _ => apply W1 in E; lia end)
   | intros ax kx Hin0; eqb_cases; subst; simp_state;
+    try (match type of Hin0 with In _ [] => destruct Hin0 end);
     try (apply in_app_or in Hin0; destruct Hin0 as [Hin0|[<-|[]]]);
     try (match type of Hin0 with In _ (_ :: remove_id _ _) =>
            match goal with Hs : forall x, In x (_ :: remove_id _ _) -> _ |- _ => apply Hs in Hin0 end end);
     use_W W2 W3; fin W1
-  | intros kx Hs0; try discriminate Hs0; try congruence; try (injection Hs0 as <-); use_W W2 W3; fin W1
-  | intros ax Hj0; eqb_cases; subst; simp_state; try discriminate; eauto;
-    try (match goal with Hs : srv ?s = SOffer ?k |- _ =>
-           let co := fresh "co" in destruct (W3 k Hs) as [co [? [? ?]]]; same_call; assumption end) ].
+  | intros kx Hs0; try discriminate Hs0; try congruence; try (injection Hs0 as <-); use_W W2 W3; fin W1 ].
 
 Lemma wf_step : forall s l s', wf s -> step s l = Some s' -> wf s'.
 Proof.
   intros s l s' W H.
-  destruct l as [k kd a|k|k|k o|k|st|  |k|a b]; step_leaves H; try exact W;
+  destruct l as [hn an|k kd a|k|k|k o|k|st|  |k|a b]; step_leaves H; try exact W;
   repeat match goal with Hq : serve_eqb _ _ = true |- _ => apply serve_eqb_eq in Hq end;
-  pose proof W as [W1 W2 W3 W4];
+  pose proof W as [W1 W2 W3]; pose proof I as W4;
   try (apply wf_take; assumption);
   try (match goal with Hs : srv s = SOffer ?k |- wf (take _ _) =>
          destruct (W3 k Hs) as [co [Ho1 [Ho2 Ho3]]]; same_call; apply wf_take; assumption end);
@@ -262,85 +258,257 @@ Lemma wf_exec : forall tr s, exec tr = Some s -> wf s.
 Proof.
   intros tr s H. apply (invariant_run _ _ step wf init wf_init wf_step tr s H).
 Qed.
+(* ---------------------------------------------------------------- channels and the routing table *)
+
+(* Channels are made in order; one that is not made yet is untouched; calls and
+   table entries refer to made channels; an entry for address a is a channel of
+   address a; a made channel keeps its address. *)
+Record wfc (s : state) : Prop := mkwfc {
+  wc_made : forall h, ch_made (chans s h) = true -> h < nchans s;
+  wc_fresh : forall h, ch_made (chans s h) = false -> chans s h = chan0;
+  wc_call : forall k c, calls s k = Some c -> ch_made (chans s (c_chan c)) = true;
+  wc_table : forall a h, table s a = Some h -> ch_made (chans s h) = true /\ ch_addr (chans s h) = a }.
+
+Lemma wfc_init : wfc init.
+Proof. constructor; cbn; intros; try discriminate; try reflexivity. Qed.
+
+Lemma take_chan : forall s h x,
+  chans (take s h) x = chans s x \/
+  (x = h /\ exists k rest, ch_jq (chans s h) = k :: rest /\ chans (take s h) x = with_jq (chans s h) rest).
+Proof.
+  intros s h x. rewrite take_unfold. destruct (ch_jq (chans s h)) as [|k rest] eqn:Eq; simp_state; [left; reflexivity|].
+  destruct (Nat.eqb x h) eqn:E; [|left; reflexivity]. apply Nat.eqb_eq in E. right. split; [exact E|].
+  exists k, rest. split; reflexivity.
+Qed.
+
+Lemma take_nchans : forall s h, nchans (take s h) = nchans s.
+Proof. intros s h. rewrite take_unfold. destruct (ch_jq (chans s h)); reflexivity. Qed.
+Lemma take_table : forall s h, table (take s h) = table s.
+Proof. intros s h. rewrite take_unfold. destruct (ch_jq (chans s h)); reflexivity. Qed.
+Lemma take_calls : forall s a, calls (take s a) = calls s.
+Proof. intros s a. rewrite take_unfold. destruct (ch_jq (chans s a)); reflexivity. Qed.
+
+Lemma wfc_take : forall s h, wfc s -> wfc (take s h).
+Proof.
+  intros s h [C1 C2 C3 C4].
+  assert (G : forall x, ch_made (chans (take s h) x) = ch_made (chans s x) /\ ch_addr (chans (take s h) x) = ch_addr (chans s x) /\
+                        (ch_made (chans s x) = false -> chans (take s h) x = chans s x)).
+  { intros x. destruct (take_chan s h x) as [->|[-> [k [rest [Eq ->]]]]]; [auto|].
+    split; [reflexivity|]. split; [reflexivity|]. intros Hm. rewrite (C2 h Hm) in Eq. discriminate Eq. }
+  constructor; rewrite ?take_nchans, ?take_table, ?take_calls.
+  - intros x Hx. destruct (G x) as [G1 _]. rewrite G1 in Hx. exact (C1 x Hx).
+  - intros x Hx. destruct (G x) as [G1 [_ G3]]. rewrite G1 in Hx. rewrite (G3 Hx). exact (C2 x Hx).
+  - intros k c Hc. destruct (G (c_chan c)) as [G1 _]. rewrite G1. exact (C3 k c Hc).
+  - intros a x Ht. destruct (G x) as [G1 [G2 _]]. rewrite G1, G2. exact (C4 a x Ht).
+Qed.
+
+Lemma wfc_set_srv : forall s v, wfc s -> wfc (set_srv s v).
+Proof. intros s v [C1 C2 C3 C4]. constructor; assumption. Qed.
+Lemma wfc_log_pres : forall s a, wfc s -> wfc (log_pres s a).
+Proof. intros s a [C1 C2 C3 C4]. constructor; assumption. Qed.
+Lemma wfc_log_invs : forall s l, wfc s -> wfc (log_invs s l).
+Proof. intros s l [C1 C2 C3 C4]. constructor; assumption. Qed.
+
+Lemma wfc_set_chan : forall s h c, wfc s ->
+  ch_made (chans s h) = true -> ch_made c = true -> ch_addr c = ch_addr (chans s h) -> wfc (set_chan s h c).
+Proof.
+  intros s h c [C1 C2 C3 C4] Hm Hc Ha. constructor; simp_state.
+  - intros x Hx. destruct (Nat.eqb x h) eqn:E; [apply Nat.eqb_eq in E; subst x; exact (C1 h Hm)|exact (C1 x Hx)].
+  - intros x Hx. destruct (Nat.eqb x h) eqn:E; [congruence|exact (C2 x Hx)].
+  - intros k c0 Hc0. destruct (Nat.eqb (c_chan c0) h) eqn:E; [exact Hc|exact (C3 k c0 Hc0)].
+  - intros a x Ht. destruct (Nat.eqb x h) eqn:E.
+    + apply Nat.eqb_eq in E. subst x. split; [exact Hc|]. rewrite Ha. exact (proj2 (C4 a h Ht)).
+    + exact (C4 a x Ht).
+Qed.
+
+Lemma wfc_set_call : forall s k c, wfc s -> ch_made (chans s (c_chan c)) = true -> wfc (set_call s k c).
+Proof.
+  intros s k c [C1 C2 C3 C4] Hm. constructor; simp_state; try assumption.
+  intros k0 c0 Hc0. destruct (Nat.eqb k0 k); [injection Hc0 as <-; exact Hm|exact (C3 k0 c0 Hc0)].
+Qed.
+
+Lemma wfc_add_call : forall s c, wfc s -> ch_made (chans s (c_chan c)) = true -> wfc (add_call s c).
+Proof.
+  intros s c [C1 C2 C3 C4] Hm. constructor; simp_state; try assumption.
+  intros k0 c0 Hc0. destruct (Nat.eqb k0 (ncalls s)); [injection Hc0 as <-; exact Hm|exact (C3 k0 c0 Hc0)].
+Qed.
+
+Lemma wfc_set_table : forall s a v, wfc s ->
+  (forall h, v = Some h -> ch_made (chans s h) = true /\ ch_addr (chans s h) = a) -> wfc (set_table s a v).
+Proof.
+  intros s a v [C1 C2 C3 C4] Hv. constructor; simp_state; try assumption.
+  intros a0 x Ht. destruct (Nat.eqb a0 a) eqn:E; [apply Nat.eqb_eq in E; subst a0; exact (Hv x Ht)|exact (C4 a0 x Ht)].
+Qed.
+
+Lemma wfc_new : forall s a, wfc s -> wfc (set_table (add_chan s (mkchan true a false [] false)) a (Some (nchans s))).
+Proof.
+  intros s a [C1 C2 C3 C4].
+  assert (Hf : ch_made (chans s (nchans s)) = false).
+  { destruct (ch_made (chans s (nchans s))) eqn:E; [|reflexivity]. apply C1 in E. lia. }
+  constructor; simp_state.
+  - intros x Hx. destruct (Nat.eqb x (nchans s)) eqn:E; [apply Nat.eqb_eq in E; lia|]. apply C1 in Hx. lia.
+  - intros x Hx. destruct (Nat.eqb x (nchans s)) eqn:E; [discriminate Hx|exact (C2 x Hx)].
+  - intros k c Hc. destruct (Nat.eqb (c_chan c) (nchans s)) eqn:E; [reflexivity|exact (C3 k c Hc)].
+  - intros a0 x Ht. destruct (Nat.eqb a0 a) eqn:E.
+    + apply Nat.eqb_eq in E. subst a0. injection Ht as <-. rewrite Nat.eqb_refl. split; reflexivity.
+    + destruct (Nat.eqb x (nchans s)) eqn:Ex; [|exact (C4 a0 x Ht)].
+      apply Nat.eqb_eq in Ex. subst x. apply C4 in Ht. rewrite Hf in Ht. destruct Ht as [Ht _]. discriminate Ht.
+Qed.
+
+Lemma wfc_step : forall s l s', wf s -> wfc s -> step s l = Some s' -> wfc s'.
+Proof.
+  intros s l s' W C H.
+  destruct l as [hn an|k kd a|k|k|k o|k|st|  |k|a b]; step_leaves H; try exact C;
+  try (apply wfc_take; assumption).
+  all: repeat match goal with
+       | C0 : wfc ?s0, E : calls ?s0 ?k = Some ?c |- _ =>
+           lazymatch goal with
+           | _ : ch_made (chans s0 (c_chan c)) = true |- _ => fail
+           | _ => pose proof (wc_call _ C0 _ _ E)
+           end
+       | C0 : wfc ?s0, E : table ?s0 ?a = Some ?h |- _ =>
+           lazymatch goal with
+           | _ : ch_made (chans s0 h) = true /\ _ |- _ => fail
+           | _ => pose proof (wc_table _ C0 _ _ E)
+           end
+       end.
+  all: try match goal with
+       | E : (_ =? _) && negb _ = true |- wfc (set_table (add_chan _ _) _ _) =>
+           let Eh := fresh in pose proof (andb_true_l _ _ E) as Eh; apply Nat.eqb_eq in Eh; subst; apply wfc_new; exact C
+       | Em : ch_made _ = true |- wfc (set_table (add_call _ _) _ _) =>
+           apply wfc_set_table;
+           [ apply wfc_add_call; [exact C|exact Em]
+           | let h := fresh in let Hh := fresh in intros h Hh; injection Hh as <-; split; [exact Em|reflexivity] ]
+       | Ht : ch_made _ = true /\ _ |- wfc (set_chan (set_table _ _ None) _ _) =>
+           destruct Ht as [? ?]; apply wfc_set_chan; simp_state; auto;
+           apply wfc_set_table; [exact C|]; let h := fresh in let Hh := fresh in intros h Hh; discriminate Hh
+       end.
+  all: repeat first
+       [ exact C
+       | apply wfc_set_srv | apply wfc_log_invs | apply wfc_log_pres
+       | apply wfc_set_call | apply wfc_add_call | apply wfc_set_chan ];
+       simp_state; rewrite ?Nat.eqb_refl; simp_state; auto.
+Qed.
+
+Lemma wfc_exec : forall tr s, exec tr = Some s -> wfc s.
+Proof.
+  intros tr s H. unfold exec in H.
+  assert (G : wf s /\ wfc s).
+  { apply (invariant_run _ _ step (fun s => wf s /\ wfc s) init) with (tr := tr); [| |exact H].
+    - split; [exact wf_init|exact wfc_init].
+    - intros s0 l s1 [W C] Hs. split; [exact (wf_step _ _ _ W Hs)|exact (wfc_step _ _ _ W C Hs)]. }
+  exact (proj2 G).
+Qed.
+
 (* ---------------------------------------------------------------- membership *)
 
-(* The property's membership window, read off a history alone: an occupant
-   address is a member from the return of a successful join for it until its
-   unavailable presence is handled. [strict = false] adds the one deviation the
-   code has (kept because the test suite demands it): a Leave that returns the
-   room's error also ends membership. *)
-Record mspec := mkms { ms_call : cid -> option (kind * addr); ms_mem : addr -> bool }.
+(* The property's membership window, read off a history alone. The history also
+   tells which Channel has which address (LNew) and which Channel is registered
+   for an address (LNew, LCall _ KJoin _: last wins; the unavailable presence
+   removes the entry).
+   [strict = true], the property: a Channel is a member from the return of a
+   successful join on it until the unavailable presence of ITS ADDRESS is handled.
+   [strict = false], the code: ... until the unavailable presence of its address
+   is handled WHILE IT IS THE REGISTERED Channel (a Channel that another one has
+   replaced in the table does not see it), or a Leave on it returns the room's
+   error (kept because the test suite demands it). *)
+Record mspec := mkms {
+  ms_call : cid -> option (kind * chid); ms_addr : chid -> addr;
+  ms_table : addr -> option chid; ms_mem : chid -> bool }.
 
-Definition ms0 : mspec := mkms (fun _ => None) (fun _ => false).
+Definition ms0 : mspec := mkms (fun _ => None) (fun _ => 0) (fun _ => None) (fun _ => false).
 
-Definition ms_set (m : addr -> bool) (a : addr) (b : bool) : addr -> bool :=
-  fun x => if Nat.eqb x a then b else m x.
+Definition fset {A : Type} (f : nat -> A) (x : nat) (v : A) : nat -> A :=
+  fun y => if Nat.eqb y x then v else f y.
 
 Definition mstep (strict : bool) (m : mspec) (l : label) : mspec :=
   match l with
-  | LCall k kd a => mkms (fun x => if Nat.eqb x k then Some (kd, a) else ms_call m x) (ms_mem m)
+  | LNew h a => mkms (ms_call m) (fset (ms_addr m) h a) (fset (ms_table m) a (Some h)) (ms_mem m)
+  | LCall k kd h =>
+      mkms (fset (ms_call m) k (Some (kd, h))) (ms_addr m)
+           (match kd with
+            | KJoin => fset (ms_table m) (ms_addr m h) (Some h)
+            | KLeave => ms_table m
+            end) (ms_mem m)
   | LRet k OSuccess =>
       match ms_call m k with
-      | Some (KJoin, a) => mkms (ms_call m) (ms_set (ms_mem m) a true)
+      | Some (KJoin, h) => mkms (ms_call m) (ms_addr m) (ms_table m) (fset (ms_mem m) h true)
       | _ => m
       end
   | LRet k OStanzaErr =>
       if strict then m else
       match ms_call m k with
-      | Some (KLeave, a) => mkms (ms_call m) (ms_set (ms_mem m) a false)
+      | Some (KLeave, h) => mkms (ms_call m) (ms_addr m) (ms_table m) (fset (ms_mem m) h false)
       | _ => m
       end
-  | LDeliver (PresUnavail a) => mkms (ms_call m) (ms_set (ms_mem m) a false)
+  | LDeliver (PresUnavail a) =>
+      if strict
+      then mkms (ms_call m) (ms_addr m) (fset (ms_table m) a None)
+                (fun h => if Nat.eqb (ms_addr m h) a then false else ms_mem m h)
+      else match ms_table m a with
+           | Some h => mkms (ms_call m) (ms_addr m) (fset (ms_table m) a None) (fset (ms_mem m) h false)
+           | None => m
+           end
   | _ => m
   end.
 
-Definition member_window (tr : list label) (a : addr) : bool := ms_mem (fold_left (mstep true) tr ms0) a.
-Definition member_impl (tr : list label) (a : addr) : bool := ms_mem (fold_left (mstep false) tr ms0) a.
+Definition member_window (tr : list label) (h : chid) : bool := ms_mem (fold_left (mstep true) tr ms0) h.
+Definition member_impl (tr : list label) (h : chid) : bool := ms_mem (fold_left (mstep false) tr ms0) h.
 
-Definition info (c : call) : kind * addr := (c_kind c, c_addr c).
+Definition info (c : call) : kind * chid := (c_kind c, c_chan c).
 
 Definition agree (m : mspec) (s : state) : Prop :=
   (forall k, ms_call m k = option_map info (calls s k)) /\
-  (forall a, ch_joined (chans s a) = ms_mem m a).
-
-Lemma take_calls : forall s a, calls (take s a) = calls s.
-Proof. intros s a. rewrite take_unfold. destruct (ch_jq (chans s a)); reflexivity. Qed.
+  (forall h, ms_addr m h = ch_addr (chans s h)) /\
+  (forall a, ms_table m a = table s a) /\
+  (forall h, ch_joined (chans s h) = ms_mem m h).
 
 Lemma take_joined : forall s a x, ch_joined (chans (take s a) x) = ch_joined (chans s x).
 Proof.
-  intros s a x. rewrite take_unfold. destruct (ch_jq (chans s a)); simp_state; [reflexivity|].
-  destruct (Nat.eqb x a) eqn:E; [apply Nat.eqb_eq in E; subst|]; reflexivity.
+  intros s a x. destruct (take_chan s a x) as [->|[-> [k [rest [_ ->]]]]]; reflexivity.
+Qed.
+Lemma take_addr : forall s a x, ch_addr (chans (take s a) x) = ch_addr (chans s x).
+Proof.
+  intros s a x. destruct (take_chan s a x) as [->|[-> [k [rest [_ ->]]]]]; reflexivity.
 Qed.
 
 Ltac rew_calls :=
   repeat match goal with
   | E : calls ?s ?k = Some _ |- context [calls ?s ?k] => rewrite E
   | E : c_kind ?c = _ |- context [c_kind ?c] => rewrite E
+  | E : table ?s ?a = _ |- context [table ?s ?a] => rewrite E
   end.
 
-Ltac agree_fin Hc Hj :=
+Ltac agree_fin Hc Ha Ht Hj :=
   rew_calls;
-  split; [intros kx|intros ax]; simp_state; rewrite ?take_calls, ?take_joined;
-  unfold ms_set; cbn [ms_call ms_mem];
-  try (rewrite Hc); try (rewrite <- Hj);
+  split; [intros kx|split; [intros hx|split; [intros ax|intros hx]]];
+  simp_state; rewrite ?take_calls, ?take_joined, ?take_addr, ?take_table;
+  unfold fset; cbn [ms_call ms_addr ms_table ms_mem];
+  try (rewrite Hc); try (rewrite Ha); try (rewrite Ht); try (rewrite <- Hj);
+  rew_calls; cbn [ms_call ms_addr ms_table ms_mem];
   eqb_cases; subst; simp_state; rew_calls; cbn [option_map]; unfold info; simp_state;
   try reflexivity; try congruence; auto.
 
-Lemma mstep_sound : forall m s l s', wf s -> agree m s -> step s l = Some s' -> agree (mstep false m l) s'.
+Lemma mstep_sound : forall m s l s', wf s -> wfc s -> agree m s -> step s l = Some s' -> agree (mstep false m l) s'.
 Proof.
-  intros m s l s' W [Hc Hj] H.
-  destruct l as [k kd a|k|k|k o|k|st|  |k|a b]; step_leaves H; cbn [mstep];
+  intros m s l s' W C [Hc [Ha [Ht Hj]]] H.
+  destruct l as [hn an|k kd a|k|k|k o|k|st|  |k|a b]; step_leaves H; cbn [mstep];
   repeat match goal with Hq : serve_eqb _ _ = true |- _ => apply serve_eqb_eq in Hq end;
   try (match goal with E : calls s ?k = Some ?c |- context [ms_call m ?k] =>
-         let Hk := fresh "Hk" in pose proof (Hc k) as Hk; rewrite E in Hk; cbn [option_map] in Hk; unfold info in Hk; rewrite Hk end).
-  all: try (solve [agree_fin Hc Hj]).
-  - pose proof (andb_true_l _ _ E) as Ek. apply Nat.eqb_eq in Ek. subst k. agree_fin Hc Hj.
-  - pose proof (andb_true_l _ _ E) as Ek. apply Nat.eqb_eq in Ek. subst k. agree_fin Hc Hj.
-  - (* unavailable presence for an address without a table entry *)
-    split; [exact Hc|]. intros ax. cbn [ms_mem]. unfold ms_set.
-    destruct (Nat.eqb ax a) eqn:Ea; [|apply Hj]. apply Nat.eqb_eq in Ea. subst ax.
-    destruct (ch_joined (chans s' a)) eqn:Ej; [|reflexivity].
-    apply (wf_joined _ W) in Ej. congruence.
+         let Hk := fresh "Hk" in pose proof (Hc k) as Hk; rewrite E in Hk; cbn [option_map] in Hk; unfold info in Hk; rewrite Hk end);
+  try (match goal with E : table s ?a = _ |- context [ms_table m ?a] =>
+         let Hk := fresh "Hk" in pose proof (Ht a) as Hk; rewrite E in Hk; rewrite Hk end).
+  all: try (solve [agree_fin Hc Ha Ht Hj]).
+  - (* a new channel: it was not joined *)
+    pose proof (andb_true_l _ _ E) as Eh. apply Nat.eqb_eq in Eh. subst hn.
+    assert (Hf : chans s (nchans s) = chan0).
+    { apply (wc_fresh _ C). destruct (ch_made (chans s (nchans s))) eqn:Em; [|reflexivity]. apply (wc_made _ C) in Em. lia. }
+    split; [intros kx|split; [intros hx|split; [intros ax|intros hx]]]; simp_state; unfold fset; cbn [ms_call ms_addr ms_table ms_mem];
+      try apply Hc; try (destruct (Nat.eqb hx (nchans s)) eqn:Ex; simp_state; [try reflexivity|auto]);
+      try (destruct (Nat.eqb ax an); [reflexivity|apply Ht]).
+    apply Nat.eqb_eq in Ex. subst hx. rewrite <- Hj, Hf. reflexivity.
+  - pose proof (andb_true_l _ _ E) as Ek. apply Nat.eqb_eq in Ek. subst k. agree_fin Hc Ha Ht Hj.
+  - pose proof (andb_true_l _ _ E) as Ek. apply Nat.eqb_eq in Ek. subst k. agree_fin Hc Ha Ht Hj.
 Qed.
 
 Lemma fold_left_snoc : forall (A B : Type) (f : A -> B -> A) l x a, fold_left f (l ++ [x]) a = f (fold_left f l a) x.
@@ -349,14 +517,35 @@ Proof. intros. rewrite fold_left_app. reflexivity. Qed.
 Lemma agree_exec : forall tr s, exec tr = Some s -> agree (fold_left (mstep false) tr ms0) s.
 Proof.
   intros tr s H. unfold exec in H.
-  apply (invariant_hist _ _ step (fun h s => wf s /\ agree (fold_left (mstep false) h ms0) s) init) with (tr := tr) (s := s); [| |exact H].
-  - split; [exact wf_init|]. split; reflexivity.
-  - intros h s0 l s1 _ [W A] Hs. split; [exact (wf_step _ _ _ W Hs)|].
-    rewrite fold_left_snoc. exact (mstep_sound _ _ _ _ W A Hs).
+  apply (invariant_hist _ _ step (fun h s => (wf s /\ wfc s) /\ agree (fold_left (mstep false) h ms0) s) init) with (tr := tr) (s := s); [| |exact H].
+  - split; [split; [exact wf_init|exact wfc_init]|]. repeat split; reflexivity.
+  - intros h s0 l s1 _ [[W C] A] Hs. split; [split; [exact (wf_step _ _ _ W Hs)|exact (wfc_step _ _ _ W C Hs)]|].
+    rewrite fold_left_snoc. exact (mstep_sound _ _ _ _ W C A Hs).
 Qed.
 
-Lemma membership_impl : forall tr s a, exec tr = Some s -> ch_joined (chans s a) = member_impl tr a.
-Proof. intros tr s a H. destruct (agree_exec tr s H) as [_ Hj]. apply Hj. Qed.
+Lemma membership_impl : forall tr s h, exec tr = Some s -> ch_joined (chans s h) = member_impl tr h.
+Proof. intros tr s h H. destruct (agree_exec tr s H) as [_ [_ [_ Hj]]]. apply Hj. Qed.
+
+(* the two folds differ in the membership component only *)
+Lemma folds_same : forall tr,
+  ms_call (fold_left (mstep true) tr ms0) = ms_call (fold_left (mstep false) tr ms0) /\
+  ms_addr (fold_left (mstep true) tr ms0) = ms_addr (fold_left (mstep false) tr ms0) /\
+  (forall a, ms_table (fold_left (mstep true) tr ms0) a = ms_table (fold_left (mstep false) tr ms0) a).
+Proof.
+  induction tr as [|l tr IH] using rev_ind; [repeat split; reflexivity|].
+  rewrite !fold_left_snoc. destruct IH as [I1 [I2 I3]].
+  set (mt := fold_left (mstep true) tr ms0) in *. set (mf := fold_left (mstep false) tr ms0) in *.
+  destruct l as [hn an|k kd a|k|k|k o|k|st|  |k|a b]; cbn [mstep]; try (repeat split; assumption).
+  - cbn [ms_call ms_addr ms_table]. rewrite I1, I2. repeat split; try reflexivity. intros a. unfold fset. rewrite I3. reflexivity.
+  - cbn [ms_call ms_addr ms_table]. rewrite I1, I2. repeat split; try reflexivity. intros a0. destruct kd; [unfold fset; rewrite I3; reflexivity|apply I3].
+  - destruct o; try (repeat split; assumption).
+    + rewrite I1. destruct (ms_call mf k) as [[[|] h1]|]; repeat split; assumption.
+    + destruct (ms_call mf k) as [[[|] h1]|]; repeat split; assumption.
+  - destruct st; try (repeat split; assumption).
+    destruct (ms_table mf a) as [h1|] eqn:Et; cbn [ms_call ms_addr ms_table]; repeat split; try assumption.
+    + intros a0. unfold fset. rewrite I3. reflexivity.
+    + intros a0. unfold fset. destruct (Nat.eqb a0 a) eqn:Ea; [|apply I3]. apply Nat.eqb_eq in Ea. subst a0. symmetry. exact Et.
+Qed.
 
 Lemma ms_call_In : forall b h k kd a,
   ms_call (fold_left (mstep b) h ms0) k = Some (kd, a) -> In (LCall k kd a) h.
@@ -364,9 +553,9 @@ Proof.
   intros b h. induction h as [|l h IH] using rev_ind; intros k kd a H.
   - discriminate H.
   - rewrite fold_left_snoc in H. apply in_or_app.
-    destruct l as [k0 kd0 a0|k0|k0|k0 o|k0|st|  |k0|a0 b0]; cbn [mstep] in H;
+    destruct l as [hn an|k0 kd0 a0|k0|k0|k0 o|k0|st|  |k0|a0 b0]; cbn [mstep] in H;
       try (left; apply IH; exact H).
-    + cbn [ms_call] in H. destruct (Nat.eqb k k0) eqn:E.
+    + cbn [ms_call] in H. unfold fset in H. destruct (Nat.eqb k k0) eqn:E.
       * apply Nat.eqb_eq in E. subst. injection H as -> ->. right. left. reflexivity.
       * left. apply IH. exact H.
     + left. apply IH.
@@ -374,60 +563,113 @@ Proof.
       * destruct (ms_call (fold_left (mstep b) h ms0) k0) as [[[|] a1]|]; exact H.
       * destruct b; [exact H|].
         destruct (ms_call (fold_left (mstep false) h ms0) k0) as [[[|] a1]|]; exact H.
-    + left. apply IH. destruct st; exact H.
+    + left. apply IH. destruct st; try exact H. destruct b; [exact H|].
+      destruct (ms_table (fold_left (mstep false) h ms0) a0); exact H.
 Qed.
 
-Lemma folds_agree : forall tr a,
-  (forall k, In (LRet k OStanzaErr) tr -> ~ In (LCall k KLeave a) tr) ->
-  (forall k, ms_call (fold_left (mstep true) tr ms0) k = ms_call (fold_left (mstep false) tr ms0) k) /\
-  ms_mem (fold_left (mstep true) tr ms0) a = ms_mem (fold_left (mstep false) tr ms0) a.
+(* A Channel is never "orphaned" in a history if, whenever the unavailable presence of its
+   address is handled while it is a member, it is the registered Channel. *)
+Definition never_orphaned (tr : list label) (h : chid) : Prop :=
+  forall t1 t2 a s1, tr = t1 ++ LDeliver (PresUnavail a) :: t2 -> exec t1 = Some s1 ->
+  ch_addr (chans s1 h) = a -> ch_joined (chans s1 h) = true -> table s1 a = Some h.
+
+(* a computable check of [never_orphaned] for concrete histories *)
+Fixpoint never_orphaned_b (s : state) (tr : list label) (h : chid) : bool :=
+  match tr with
+  | [] => true
+  | l :: r =>
+      (match l with
+       | LDeliver (PresUnavail a) =>
+           if Nat.eqb (ch_addr (chans s h)) a && ch_joined (chans s h)
+           then match table s a with Some h' => Nat.eqb h' h | None => false end
+           else true
+       | _ => true
+       end) &&
+      match step s l with Some s' => never_orphaned_b s' r h | None => true end
+  end.
+
+Lemma never_orphaned_b_sound : forall tr h, never_orphaned_b init tr h = true -> never_orphaned tr h.
 Proof.
-  intros tr a. induction tr as [|l h IH] using rev_ind; intros Hfree.
-  - split; reflexivity.
-  - destruct IH as [IHc IHm].
-    { intros k Hin Hc. apply (Hfree k); apply in_or_app; left; assumption. }
-    rewrite !fold_left_snoc.
-    set (mt := fold_left (mstep true) h ms0) in *. set (mf := fold_left (mstep false) h ms0) in *.
-    destruct l as [k0 kd0 a0|k0|k0|k0 o|k0|st|  |k0|a0 b0]; cbn [mstep]; try (split; assumption).
-    + split; [|exact IHm]. intros k. cbn [ms_call]. rewrite IHc. reflexivity.
-    + destruct o; try (split; assumption).
-      * rewrite IHc. destruct (ms_call mf k0) as [[[|] a1]|]; try (split; assumption).
-        split; [exact IHc|]. cbn [ms_mem]. unfold ms_set. rewrite IHm. reflexivity.
-      * destruct (ms_call mf k0) as [[[|] a1]|] eqn:Ec; try (split; assumption).
-        split; [exact IHc|]. cbn [ms_mem]. unfold ms_set.
-        destruct (Nat.eqb a a1) eqn:Ea; [|exact IHm].
-        apply Nat.eqb_eq in Ea. subst a1. exfalso.
-        apply (Hfree k0); apply in_or_app; [right; left; reflexivity|left].
-        apply (ms_call_In false). exact Ec.
-    + destruct st; try (split; assumption).
-      split; [exact IHc|]. cbn [ms_mem]. unfold ms_set. rewrite IHm. reflexivity.
+  intros tr h Hb t1 t2 a s1 Htr Hex Ha Hj. unfold exec in Hex. subst tr.
+  revert Hb Hex. generalize init. induction t1 as [|l t1 IH]; intros s0 Hb Hex.
+  - cbn [run] in Hex. injection Hex as <-. cbn [app never_orphaned_b] in Hb.
+    apply andb_true_iff in Hb. destruct Hb as [Hb _].
+    rewrite Ha, Nat.eqb_refl, Hj in Hb. cbn [andb] in Hb.
+    destruct (table s0 a) as [h'|]; [|discriminate Hb]. apply Nat.eqb_eq in Hb. subst h'. reflexivity.
+  - cbn [run] in Hex. destruct (step s0 l) as [s'|] eqn:Hs; [|discriminate Hex].
+    cbn [app never_orphaned_b] in Hb. apply andb_true_iff in Hb. destruct Hb as [_ Hb]. rewrite Hs in Hb.
+    exact (IH s' Hb Hex).
 Qed.
 
-Lemma membership_window_partial : forall tr s a,
+Lemma exec_snoc : forall tr l s, exec (tr ++ [l]) = Some s -> exists s1, exec tr = Some s1 /\ step s1 l = Some s.
+Proof. intros tr l s H. unfold exec in *. apply run_snoc_some in H. exact H. Qed.
+
+Lemma windows_agree : forall tr s h,
   exec tr = Some s ->
-  (forall k, In (LRet k OStanzaErr) tr -> ~ In (LCall k KLeave a) tr) ->
-  ch_joined (chans s a) = member_window tr a.
+  (forall k, In (LRet k OStanzaErr) tr -> ~ In (LCall k KLeave h) tr) ->
+  never_orphaned tr h ->
+  ms_mem (fold_left (mstep true) tr ms0) h = ms_mem (fold_left (mstep false) tr ms0) h.
 Proof.
-  intros tr s a H Hfree. rewrite (membership_impl tr s a H).
-  unfold member_impl, member_window. destruct (folds_agree tr a Hfree) as [_ Hm]. symmetry. exact Hm.
+  induction tr as [|l tr IH] using rev_ind; intros s h H Hfree Horph; [reflexivity|].
+  apply exec_snoc in H. destruct H as [s1 [Hex Hstep]].
+  assert (IH' : ms_mem (fold_left (mstep true) tr ms0) h = ms_mem (fold_left (mstep false) tr ms0) h).
+  { apply (IH s1 h Hex).
+    - intros k Hin Hc. apply (Hfree k); apply in_or_app; left; assumption.
+    - intros t1 t2 a s2 -> . apply (Horph t1 (t2 ++ [l]) a s2). rewrite <- app_assoc. reflexivity. }
+  clear IH. rewrite !fold_left_snoc.
+  destruct (folds_same tr) as [I1 [I2 I3]].
+  destruct (agree_exec tr s1 Hex) as [_ [Ga [Gt Gj]]].
+  pose proof (wfc_exec tr s1 Hex) as C1.
+  set (mt := fold_left (mstep true) tr ms0) in *. set (mf := fold_left (mstep false) tr ms0) in *.
+  destruct l as [hn an|k kd a|k|k|k o|k|st|  |k|a b]; cbn [mstep]; try exact IH'.
+  - destruct o; try exact IH'.
+    + rewrite I1. destruct (ms_call mf k) as [[[|] h1]|]; try exact IH'. cbn [ms_mem]. unfold fset. rewrite IH'. reflexivity.
+    + destruct (ms_call mf k) as [[[|] h1]|] eqn:Ec; try exact IH'. cbn [ms_mem]. unfold fset.
+      destruct (Nat.eqb h h1) eqn:Eh; [|exact IH']. apply Nat.eqb_eq in Eh. subst h1. exfalso.
+      apply (Hfree k); apply in_or_app; [right; left; reflexivity|left]. apply (ms_call_In false). exact Ec.
+  - destruct st; try exact IH'.
+    (* the unavailable presence of a *)
+    cbn [ms_mem]. rewrite I2.
+    destruct (Nat.eqb (ms_addr mf h) a) eqn:Ea.
+    + apply Nat.eqb_eq in Ea. rewrite Ga in Ea.
+      destruct (ms_mem mf h) eqn:Em.
+      * rewrite <- Gj in Em. pose proof (Horph tr [] a s1 eq_refl Hex Ea Em) as Ht.
+        rewrite Gt, Ht. cbn [ms_mem]. unfold fset. rewrite Nat.eqb_refl. reflexivity.
+      * destruct (ms_table mf a) as [h1|]; cbn [ms_mem]; [|symmetry; exact Em].
+        unfold fset. destruct (Nat.eqb h h1); [reflexivity|symmetry; exact Em].
+    + destruct (ms_table mf a) as [h1|] eqn:Et; cbn [ms_mem]; [|exact IH'].
+      unfold fset. destruct (Nat.eqb h h1) eqn:Eh; [|exact IH']. apply Nat.eqb_eq in Eh. subst h1. exfalso.
+      rewrite Gt in Et. destruct (wc_table _ C1 _ _ Et) as [_ Hadd]. rewrite <- Ga in Hadd.
+      apply Nat.eqb_neq in Ea. exact (Ea Hadd).
 Qed.
 
-Lemma query_reports_membership : forall tr a b s,
-  exec (tr ++ [LQuery a b]) = Some s -> b = member_impl tr a.
+Lemma membership_window_partial : forall tr s h,
+  exec tr = Some s ->
+  (forall k, In (LRet k OStanzaErr) tr -> ~ In (LCall k KLeave h) tr) ->
+  never_orphaned tr h ->
+  ch_joined (chans s h) = member_window tr h.
 Proof.
-  intros tr a b s H. unfold exec in H. apply run_snoc_some in H. destruct H as [s1 [H1 H2]].
+  intros tr s h H Hfree Horph. rewrite (membership_impl tr s h H). unfold member_impl, member_window.
+  symmetry. exact (windows_agree tr s h H Hfree Horph).
+Qed.
+
+Lemma query_reports_membership : forall tr h b s,
+  exec (tr ++ [LQuery h b]) = Some s -> b = member_impl tr h.
+Proof.
+  intros tr a b s H. apply exec_snoc in H. destruct H as [s1 [H1 H2]].
   rewrite <- (membership_impl tr s1 a H1).
   cbn [step] in H2. destruct (is_offer (srv s1)); [discriminate|].
   destruct (Bool.eqb b (ch_joined (chans s1 a))) eqn:E; [|discriminate].
   apply Bool.eqb_prop in E. exact E.
 Qed.
 
+(* the deviations: a refused Leave ends membership ... *)
 Definition refute_trace : list label :=
-  [LCall 0 KJoin 0; LPush 0; LPushed 0; LDeliver (PresAvail 0); LRet 0 OSuccess;
+  [LNew 0 0; LCall 0 KJoin 0; LPush 0; LPushed 0; LDeliver (PresAvail 0); LRet 0 OSuccess;
    LCall 1 KLeave 0; LDeliver (ErrReply 1); LRet 1 OStanzaErr].
 
 Lemma membership_window_refuted :
-  exists tr s a, exec tr = Some s /\ ch_joined (chans s a) <> member_window tr a.
+  exists tr s h, exec tr = Some s /\ ch_joined (chans s h) <> member_window tr h.
 Proof.
   exists refute_trace.
   destruct (exec refute_trace) as [s|] eqn:E; [|vm_compute in E; discriminate].
@@ -436,16 +678,34 @@ Proof.
   rewrite E in Hj. cbn in Hj. injection Hj as ->.
   vm_compute. discriminate.
 Qed.
+
+(* ... and a Channel replaced in the table by a second Client.Join for its address
+   does not see the occupant's unavailable presence: it stays a member *)
+Definition orphan_trace : list label :=
+  [LNew 0 0; LCall 0 KJoin 0; LPush 0; LPushed 0; LDeliver (PresAvail 0); LRet 0 OSuccess;
+   LNew 1 0; LDeliver (PresUnavail 0)].
+
+Lemma membership_orphan_refuted :
+  exists s, exec orphan_trace = Some s /\ ch_joined (chans s 0) = true /\ member_window orphan_trace 0 = false /\
+            (forall k, ~ In (LRet k OStanzaErr) orphan_trace).
+Proof.
+  destruct (exec orphan_trace) as [s|] eqn:E; [|vm_compute in E; discriminate].
+  exists s. split; [reflexivity|].
+  assert (Hj : option_map (fun s => ch_joined (chans s 0)) (exec orphan_trace) = Some true) by (vm_compute; reflexivity).
+  rewrite E in Hj. cbn in Hj. injection Hj as ->.
+  split; [reflexivity|]. split; [vm_compute; reflexivity|].
+  intros k Hin. cbn in Hin. repeat (destruct Hin as [Hin|Hin]; [discriminate Hin|]). destruct Hin.
+Qed.
 (* ---------------------------------------------------------------- histories *)
 
 (* how the call table evolves *)
 Lemma step_calls : forall s l s' k c', wf s ->
   step s l = Some s' -> calls s' k = Some c' ->
-  (exists c, calls s k = Some c /\ c_kind c' = c_kind c /\ c_addr c' = c_addr c) \/
-  (l = LCall k (c_kind c') (c_addr c') /\ calls s k = None /\ k = ncalls s).
+  (exists c, calls s k = Some c /\ c_kind c' = c_kind c /\ c_chan c' = c_chan c) \/
+  (l = LCall k (c_kind c') (c_chan c') /\ calls s k = None /\ k = ncalls s).
 Proof.
   intros s l s' k c' W H Hc.
-  destruct l as [k0 kd a|k0|k0|k0 o|k0|st|  |k0|a b]; step_leaves H; simp_state; rewrite ?take_calls in Hc;
+  destruct l as [hn an|k0 kd a|k0|k0|k0 o|k0|st|  |k0|a b]; step_leaves H; simp_state; rewrite ?take_calls in Hc;
     try solve [left; exists c'; auto];
     try solve [eqb_cases; subst; same_call; simp_state; left; eexists; (split; [eassumption|split; reflexivity])].
   all: pose proof (andb_true_l _ _ E) as Ek; apply Nat.eqb_eq in Ek; subst k0;
@@ -461,7 +721,7 @@ Lemma split_snoc : forall (h h1 h2 : list label) x l, h = h1 ++ x :: h2 -> h ++ 
 Proof. intros h h1 h2 x l ->. rewrite <- app_assoc. reflexivity. Qed.
 
 Definition calls_logged (h : list label) (s : state) : Prop :=
-  forall k c, calls s k = Some c -> In (LCall k (c_kind c) (c_addr c)) h.
+  forall k c, calls s k = Some c -> In (LCall k (c_kind c) (c_chan c)) h.
 
 Lemma calls_logged_step : forall h s l s', wf s -> calls_logged h s -> step s l = Some s' -> calls_logged (h ++ [l]) s'.
 Proof.
@@ -473,10 +733,10 @@ Qed.
 
 Lemma step_calls_fwd : forall s l s' k c, wf s ->
   step s l = Some s' -> calls s k = Some c ->
-  exists c', calls s' k = Some c' /\ c_kind c' = c_kind c /\ c_addr c' = c_addr c.
+  exists c', calls s' k = Some c' /\ c_kind c' = c_kind c /\ c_chan c' = c_chan c.
 Proof.
   intros s l s' k c W H Hc.
-  destruct l as [k0 kd a|k0|k0|k0 o|k0|st|  |k0|a b]; step_leaves H; simp_state; rewrite ?take_calls;
+  destruct l as [hn an|k0 kd a|k0|k0|k0 o|k0|st|  |k0|a b]; step_leaves H; simp_state; rewrite ?take_calls;
     try solve [exists c; auto];
     try solve [eqb_cases; subst; same_call; simp_state; eexists; (split; [first [reflexivity|eassumption]|split; reflexivity])].
   all: destruct (Nat.eqb k (ncalls s)) eqn:Ekk;
@@ -485,62 +745,75 @@ Qed.
 
 (* where an offering presence handler comes from *)
 Lemma step_offer : forall s l s' k, step s l = Some s' -> srv s' = SOffer k ->
-  (srv s = SOffer k /\ (forall k' a', l <> LCall k' KJoin a')) \/
-  (exists a rest, l = LDeliver (PresAvail a) /\ ch_jq (chans s a) = k :: rest) \/
-  (exists k0 c0 rest, l = LSeeDone /\ srv s = SOffer k0 /\ calls s k0 = Some c0 /\ ch_jq (chans s (c_addr c0)) = k :: rest).
+  (srv s = SOffer k /\ (forall k' a', l <> LCall k' KJoin a') /\ (forall st, l <> LDeliver st) /\ (forall hh aa, l <> LNew hh aa)) \/
+  (exists a hh rest, l = LDeliver (PresAvail a) /\ table s a = Some hh /\ ch_jq (chans s hh) = k :: rest) \/
+  (exists k0 c0 rest, l = LSeeDone /\ srv s = SOffer k0 /\ calls s k0 = Some c0 /\ ch_jq (chans s (c_chan c0)) = k :: rest).
 Proof.
   intros s l s' k H Hs.
-  destruct l as [k0 kd a|k0|k0|k0 o|k0|st|  |k0|a b]; step_leaves H; simp_state;
+  destruct l as [hn an|k0 kd a|k0|k0|k0 o|k0|st|  |k0|a b]; step_leaves H; simp_state;
     try discriminate Hs;
-    try solve [left; split; [congruence|intros; discriminate]].
-  - rewrite Hs in E1. discriminate.
-  - rewrite take_unfold in Hs. destruct (ch_jq (chans s a)) as [|kk rest] eqn:Eq; simp_state; [discriminate|].
-    injection Hs as ->. right. left. exists a, rest. split; [reflexivity|exact Eq].
-  - rewrite take_unfold in Hs. destruct (ch_jq (chans s (c_addr c))) as [|kk rest] eqn:Eq; simp_state; [discriminate|].
+    try solve [left; split; [congruence|repeat split; intros; discriminate]];
+    try solve [exfalso; congruence];
+    try solve [exfalso; repeat match goal with Hx : srv ?s0 = SOffer _ |- _ => rewrite Hx in * end;
+               cbn [is_offer negb] in *; try rewrite andb_false_r in *; discriminate].
+  - rewrite take_unfold in Hs. destruct (ch_jq (chans s c)) as [|kk rest] eqn:Eq; simp_state; [discriminate|].
+    injection Hs as ->. right. left. exists a, c, rest. repeat split; assumption.
+  - rewrite take_unfold in Hs. destruct (ch_jq (chans s (c_chan c))) as [|kk rest] eqn:Eq; simp_state; [discriminate|].
     injection Hs as ->. right. right. exists k0, c, rest. repeat split; assumption.
 Qed.
 
+(* the handler offers to k only while it handles an available presence that was
+   looked up when k's Channel was the registered one; k was called before *)
 Definition offer_hist (h : list label) (s : state) : Prop :=
   forall k, srv s = SOffer k ->
-  exists c h1 h2, calls s k = Some c /\ c_kind c = KJoin /\
-    h = h1 ++ LDeliver (PresAvail (c_addr c)) :: h2 /\
-    In (LCall k KJoin (c_addr c)) h1 /\
-    (forall k' a', ~ In (LCall k' KJoin a') h2).
+  exists c a h1 h2 s1, calls s k = Some c /\ c_kind c = KJoin /\
+    h = h1 ++ LDeliver (PresAvail a) :: h2 /\
+    exec h1 = Some s1 /\ table s1 a = Some (c_chan c) /\
+    In (LCall k KJoin (c_chan c)) h1 /\
+    (forall k' a', ~ In (LCall k' KJoin a') h2) /\
+    (forall st, ~ In (LDeliver st) h2) /\ (forall hh aa, ~ In (LNew hh aa) h2).
 
 Lemma offer_hist_step : forall h s l s',
-  wf s -> calls_logged h s -> offer_hist h s -> step s l = Some s' -> offer_hist (h ++ [l]) s'.
+  exec h = Some s -> wf s -> calls_logged h s -> offer_hist h s -> step s l = Some s' -> offer_hist (h ++ [l]) s'.
 Proof.
-  intros h s l s' W HL HO H k Hs.
-  destruct (step_offer _ _ _ _ H Hs) as [[Hs0 Hl]|[[a [rest [-> Eq]]]|[k0 [c0 [rest [-> [Hs0 [Hc0 Eq]]]]]]]].
-  - destruct (HO k Hs0) as [c [h1 [h2 [Hc [Hk [Hh [Hin Hno]]]]]]].
+  intros h s l s' Hex W HL HO H k Hs.
+  destruct (step_offer _ _ _ _ H Hs) as [[Hs0 [Hl [Hl2 Hl3]]]|[[a [hh [rest [-> [Et Eq]]]]]|[k0 [c0 [rest [-> [Hs0 [Hc0 Eq]]]]]]]].
+  - destruct (HO k Hs0) as [c [a [h1 [h2 [s1 [Hc [Hk [Hh [He [Ht [Hin [Hno [Hnd Hnn]]]]]]]]]]]]].
     destruct (step_calls_fwd _ _ _ _ _ W H Hc) as [c' [Hc' [Hk' Ha']]].
-    exists c', h1, (h2 ++ [l]). rewrite Hk', Ha'. repeat split; try assumption.
+    exists c', a, h1, (h2 ++ [l]), s1. rewrite Hk', Ha'. repeat split; try assumption.
     + apply split_snoc. exact Hh.
-    + intros k' a' Hin'. apply in_app_or in Hin'. destruct Hin' as [Hin'|[Hin'|[]]].
-      * exact (Hno k' a' Hin').
-      * exact (Hl k' a' Hin').
-  - destruct (wf_jq _ W a k) as [c [Hc [Ha Hk]]]; [rewrite Eq; left; reflexivity|].
+    + intros k' a' Hin'. apply in_app_or in Hin'. destruct Hin' as [Hin'|[Hin'|[]]];
+        [exact (Hno k' a' Hin')|exact (Hl k' a' Hin')].
+    + intros st Hin'. apply in_app_or in Hin'. destruct Hin' as [Hin'|[Hin'|[]]];
+        [exact (Hnd st Hin')|exact (Hl2 st Hin')].
+    + intros hh aa Hin'. apply in_app_or in Hin'. destruct Hin' as [Hin'|[Hin'|[]]];
+        [exact (Hnn hh aa Hin')|exact (Hl3 hh aa Hin')].
+  - destruct (wf_jq _ W hh k) as [c [Hc [Ha Hk]]]; [rewrite Eq; left; reflexivity|].
     destruct (step_calls_fwd _ _ _ _ _ W H Hc) as [c' [Hc' [Hk' Ha']]].
-    exists c', h, []. rewrite Hk', Ha', Ha. repeat split; try assumption.
+    exists c', a, h, [], s. rewrite Hk', Ha', Ha. repeat split; try assumption.
     + specialize (HL k c Hc). rewrite Hk, Ha in HL. exact HL.
     + intros k' a' [].
-  - destruct (HO k0 Hs0) as [c [h1 [h2 [Hc [Hk [Hh [Hin Hno]]]]]]].
+    + intros st [].
+    + intros h0 a0 [].
+  - destruct (HO k0 Hs0) as [c [a [h1 [h2 [s1 [Hc [Hk [Hh [He [Ht [Hin [Hno [Hnd Hnn]]]]]]]]]]]]].
     rewrite Hc0 in Hc. injection Hc as <-.
-    destruct (wf_jq _ W (c_addr c0) k) as [c [Hc [Ha Hkk]]]; [rewrite Eq; left; reflexivity|].
+    destruct (wf_jq _ W (c_chan c0) k) as [c [Hc [Ha Hkk]]]; [rewrite Eq; left; reflexivity|].
     destruct (step_calls_fwd _ _ _ _ _ W H Hc) as [c' [Hc' [Hk' Ha']]].
-    exists c', h1, (h2 ++ [LSeeDone]). rewrite Hk', Ha', Ha. repeat split; try assumption.
+    exists c', a, h1, (h2 ++ [LSeeDone]), s1. rewrite Hk', Ha', Ha. repeat split; try assumption.
     + apply split_snoc. exact Hh.
     + specialize (HL k c Hc). rewrite Hkk, Ha, Hh in HL.
       apply in_app_or in HL. destruct HL as [HL|[HL|HL]]; [exact HL|discriminate HL|].
       exfalso. exact (Hno _ _ HL).
     + intros k' a' Hin'. apply in_app_or in Hin'. destruct Hin' as [Hin'|[Hin'|[]]]; [exact (Hno k' a' Hin')|discriminate Hin'].
+    + intros st Hin'. apply in_app_or in Hin'. destruct Hin' as [Hin'|[Hin'|[]]]; [exact (Hnd st Hin')|discriminate Hin'].
+    + intros hh aa Hin'. apply in_app_or in Hin'. destruct Hin' as [Hin'|[Hin'|[]]]; [exact (Hnn hh aa Hin')|discriminate Hin'].
 Qed.
 
 Definition logged_calls (h : list label) (s : state) : Prop :=
-  forall k kd a, In (LCall k kd a) h -> exists c, calls s k = Some c /\ c_kind c = kd /\ c_addr c = a.
+  forall k kd a, In (LCall k kd a) h -> exists c, calls s k = Some c /\ c_kind c = kd /\ c_chan c = a.
 
 Lemma step_call_new : forall s k kd a s', step s (LCall k kd a) = Some s' ->
-  exists c, calls s' k = Some c /\ c_kind c = kd /\ c_addr c = a.
+  exists c, calls s' k = Some c /\ c_kind c = kd /\ c_chan c = a.
 Proof.
   intros s k kd a s' H. step_leaves H; simp_state;
     pose proof (andb_true_l _ _ E) as Ek; apply Nat.eqb_eq in Ek; subst k; rewrite Nat.eqb_refl;
@@ -561,7 +834,7 @@ Lemma step_await : forall s l s' k, step s l = Some s' -> srv s' = SAwait k ->
   srv s = SAwait k \/ (l = LDeliver (ErrReply k) /\ exists c, calls s k = Some c).
 Proof.
   intros s l s' k H Hs.
-  destruct l as [k0 kd a|k0|k0|k0 o|k0|st|  |k0|a b]; step_leaves H; simp_state;
+  destruct l as [hn an|k0 kd a|k0|k0|k0 o|k0|st|  |k0|a b]; step_leaves H; simp_state;
     try discriminate Hs; try solve [left; congruence];
     try solve [rewrite take_unfold in Hs; destruct (ch_jq _); simp_state; discriminate Hs].
   injection Hs as ->. right. split; [reflexivity|]. exists c. exact E1.
@@ -578,7 +851,7 @@ Proof.
   destruct (step_await _ _ _ _ H Hs) as [Hs0|[-> [c Hc]]].
   - destruct (HA k Hs0) as [h1 [h2 [kd [a [Hh Hin]]]]].
     exists h1, (h2 ++ [l]), kd, a. split; [apply split_snoc; exact Hh|exact Hin].
-  - exists h, [], (c_kind c), (c_addr c). split; [reflexivity|apply HL; exact Hc].
+  - exists h, [], (c_kind c), (c_chan c). split; [reflexivity|apply HL; exact Hc].
 Qed.
 
 (* a context is done only by cancellation or by the return of its call *)
@@ -590,7 +863,7 @@ Lemma step_done : forall s l s' k c', wf s ->
   (exists c, calls s k = Some c /\ c_done c = true /\ is_ret (c_phase c) = false) \/ l = LCancel k.
 Proof.
   intros s l s' k c' W H Hc Hd Hp.
-  destruct l as [k0 kd a|k0|k0|k0 o|k0|st|  |k0|a b]; step_leaves H; simp_state; rewrite ?take_calls in Hc;
+  destruct l as [hn an|k0 kd a|k0|k0|k0 o|k0|st|  |k0|a b]; step_leaves H; simp_state; rewrite ?take_calls in Hc;
     try solve [left; exists c'; auto];
     try solve [eqb_cases; subst; same_call; simp_state; try discriminate;
                first [left; eexists; (split; [eassumption|split; assumption]) | right; reflexivity]].
@@ -611,128 +884,183 @@ Qed.
 (* the departure notification *)
 Lemma take_dep : forall s a x, ch_dep (chans (take s a) x) = ch_dep (chans s x).
 Proof.
-  intros s a x. rewrite take_unfold. destruct (ch_jq (chans s a)); simp_state; [reflexivity|].
-  destruct (Nat.eqb x a) eqn:E; [apply Nat.eqb_eq in E; subst|]; reflexivity.
+  intros s a x. destruct (take_chan s a x) as [->|[-> [k [rest [_ ->]]]]]; reflexivity.
 Qed.
 
-Lemma step_dep : forall s l s' a, step s l = Some s' -> ch_dep (chans s' a) = true ->
-  (ch_dep (chans s a) = true /\ (forall k, l <> LCall k KLeave a)) \/ l = LDeliver (PresUnavail a).
+Lemma step_dep : forall s l s' h, step s l = Some s' -> ch_dep (chans s' h) = true ->
+  (ch_dep (chans s h) = true /\ (forall k, l <> LCall k KLeave h)) \/
+  (exists a, l = LDeliver (PresUnavail a) /\ table s a = Some h).
 Proof.
-  intros s l s' a H Hd.
-  destruct l as [k0 kd a0|k0|k0|k0 o|k0|st|  |k0|a0 b]; step_leaves H; simp_state; rewrite ?take_dep in Hd;
+  intros s l s' h H Hd.
+  destruct l as [hn an|k0 kd a0|k0|k0|k0 o|k0|st|  |k0|a0 b]; step_leaves H; simp_state; rewrite ?take_dep in Hd;
     try solve [left; split; [exact Hd|intros; discriminate]];
     try solve [eqb_cases; subst; simp_state; try discriminate Hd;
-               first [left; split; [exact Hd|intros; congruence] | right; reflexivity]].
+               first [left; split; [exact Hd|intros; congruence] | right; eexists; split; [reflexivity|assumption]]].
 Qed.
 
 (* a waiting Leave call in the new state was a waiting Leave call before, or has just started *)
 Lemma step_leave_wait : forall s l s' k c', wf s ->
   step s l = Some s' -> calls s' k = Some c' -> c_kind c' = KLeave -> c_phase c' = PWait ->
-  (exists c, calls s k = Some c /\ c_kind c = KLeave /\ c_phase c = PWait /\ c_addr c = c_addr c') \/
-  l = LCall k KLeave (c_addr c').
+  (exists c, calls s k = Some c /\ c_kind c = KLeave /\ c_phase c = PWait /\ c_chan c = c_chan c') \/
+  l = LCall k KLeave (c_chan c').
 Proof.
   intros s l s' k c' W H Hc Hk Hp.
-  destruct l as [k0 kd a|k0|k0|k0 o|k0|st|  |k0|a b]; step_leaves H; simp_state; rewrite ?take_calls in Hc;
+  destruct l as [hn an|k0 kd a|k0|k0|k0 o|k0|st|  |k0|a b]; step_leaves H; simp_state; rewrite ?take_calls in Hc;
     try solve [left; exists c'; auto];
     try solve [eqb_cases; subst; same_call; simp_state; try discriminate; try congruence;
                first [left; eexists; split; [eassumption|auto] | right; reflexivity]].
 Qed.
 
+(* a kept notification for a waiting Leave comes from the unavailable presence
+   of an address for which its Channel was the registered one, handled after the
+   call started *)
 Definition leave_hist (h : list label) (s : state) : Prop :=
   forall k c, calls s k = Some c -> c_kind c = KLeave -> c_phase c = PWait ->
-  ch_dep (chans s (c_addr c)) = true ->
-  exists h1 h2 h3, h = h1 ++ LCall k KLeave (c_addr c) :: h2 ++ LDeliver (PresUnavail (c_addr c)) :: h3.
+  ch_dep (chans s (c_chan c)) = true ->
+  exists h1 h2 h3 a s1,
+    h = h1 ++ LCall k KLeave (c_chan c) :: h2 ++ LDeliver (PresUnavail a) :: h3 /\
+    exec (h1 ++ LCall k KLeave (c_chan c) :: h2) = Some s1 /\ table s1 a = Some (c_chan c).
 
 Lemma leave_hist_step : forall h s l s',
-  wf s -> calls_logged h s -> leave_hist h s -> step s l = Some s' -> leave_hist (h ++ [l]) s'.
+  exec h = Some s -> wf s -> calls_logged h s -> leave_hist h s -> step s l = Some s' -> leave_hist (h ++ [l]) s'.
 Proof.
-  intros h s l s' W HL HV H k c' Hc Hk Hp Hd.
+  intros h s l s' Hex W HL HV H k c' Hc Hk Hp Hd.
   destruct (step_leave_wait _ _ _ _ _ W H Hc Hk Hp) as [[c [Hc0 [Hk0 [Hp0 Ha0]]]]|Hl].
   - rewrite <- Ha0 in *.
-    destruct (step_dep _ _ _ _ H Hd) as [[Hd0 _]| ->].
-    + destruct (HV k c Hc0 Hk0 Hp0 Hd0) as [h1 [h2 [h3 Hh]]].
-      exists h1, h2, (h3 ++ [l]). rewrite Hh. rewrite <- !app_assoc. cbn [app]. rewrite <- app_assoc. reflexivity.
+    destruct (step_dep _ _ _ _ H Hd) as [[Hd0 _]|[a [-> Ht]]].
+    + destruct (HV k c Hc0 Hk0 Hp0 Hd0) as [h1 [h2 [h3 [a [s1 [Hh [He Ht]]]]]]].
+      exists h1, h2, (h3 ++ [l]), a, s1. split; [|split; assumption].
+      rewrite Hh. rewrite <- !app_assoc. cbn [app]. rewrite <- app_assoc. reflexivity.
     + pose proof (HL k c Hc0) as Hin. rewrite Hk0 in Hin.
-      apply in_split in Hin. destruct Hin as [t1 [t2 ->]].
-      exists t1, t2, []. rewrite <- app_assoc. reflexivity.
+      apply in_split in Hin. destruct Hin as [t1 [t2 Hsplit]].
+      exists t1, t2, [], a, s. split; [|split].
+      * rewrite Hsplit. rewrite <- app_assoc. reflexivity.
+      * rewrite <- Hsplit. exact Hex.
+      * exact Ht.
   - exfalso. subst l. step_leaves H. simp_state. rewrite Nat.eqb_refl in Hd. simp_state. discriminate Hd.
+Qed.
+
+(* which Channels exist and where table entries come from *)
+Definition new_logged (h : list label) (s : state) : Prop :=
+  forall x, ch_made (chans s x) = true -> In (LNew x (ch_addr (chans s x))) h.
+
+Lemma take_made : forall s a x, ch_made (chans (take s a) x) = ch_made (chans s x).
+Proof.
+  intros s a x. destruct (take_chan s a x) as [->|[-> [k [rest [_ ->]]]]]; reflexivity.
+Qed.
+
+Lemma step_made : forall s l s' x, step s l = Some s' -> ch_made (chans s' x) = true ->
+  (ch_made (chans s x) = true /\ ch_addr (chans s' x) = ch_addr (chans s x)) \/ l = LNew x (ch_addr (chans s' x)).
+Proof.
+  intros s l s' x H Hm.
+  destruct l as [hn an|k0 kd a0|k0|k0|k0 o|k0|st|  |k0|a0 b]; step_leaves H; simp_state;
+    rewrite ?take_made in Hm; rewrite ?take_addr;
+    try solve [left; split; [exact Hm|reflexivity]];
+    try solve [eqb_cases; subst; simp_state; first [left; split; [assumption|reflexivity] | right; reflexivity]].
+  pose proof (andb_true_l _ _ E) as Eh. apply Nat.eqb_eq in Eh. subst hn.
+  destruct (Nat.eqb x (nchans s)) eqn:Ex; simp_state.
+  - apply Nat.eqb_eq in Ex. subst x. right. reflexivity.
+  - left. split; [exact Hm|reflexivity].
+Qed.
+
+Lemma new_logged_step : forall h s l s', new_logged h s -> step s l = Some s' -> new_logged (h ++ [l]) s'.
+Proof.
+  intros h s l s' HN H x Hm. apply in_or_app.
+  destruct (step_made _ _ _ _ H Hm) as [[Hm0 ->]| ->]; [left; exact (HN x Hm0)|right; left; reflexivity].
 Qed.
 
 (* the history invariants, together *)
 Record hinv (h : list label) (s : state) : Prop := mkhinv {
   hi_wf : wf s;
+  hi_wfc : wfc s;
   hi_logged : calls_logged h s;
   hi_back : logged_calls h s;
   hi_offer : offer_hist h s;
   hi_await : await_hist h s;
   hi_done : done_hist h s;
-  hi_leave : leave_hist h s }.
+  hi_leave : leave_hist h s;
+  hi_new : new_logged h s }.
 
 Lemma hinv_init : hinv [] init.
 Proof.
   constructor.
   - exact wf_init.
+  - exact wfc_init.
   - intros k c H. discriminate H.
   - intros k kd a [].
   - intros k H. discriminate H.
   - intros k H. discriminate H.
   - intros k c H. discriminate H.
   - intros k c H. discriminate H.
+  - intros x H. discriminate H.
 Qed.
 
-Lemma hinv_step : forall h s l s', hinv h s -> step s l = Some s' -> hinv (h ++ [l]) s'.
+Lemma hinv_step : forall h s l s', exec h = Some s -> hinv h s -> step s l = Some s' -> hinv (h ++ [l]) s'.
 Proof.
-  intros h s l s' [W HL HB HO HA HD HV] H. constructor.
+  intros h s l s' Hex [W C HL HB HO HA HD HV HN] H. constructor.
   - exact (wf_step _ _ _ W H).
+  - exact (wfc_step _ _ _ W C H).
   - exact (calls_logged_step _ _ _ _ W HL H).
   - exact (logged_calls_step _ _ _ _ W HB H).
-  - exact (offer_hist_step _ _ _ _ W HL HO H).
+  - exact (offer_hist_step _ _ _ _ Hex W HL HO H).
   - exact (await_hist_step _ _ _ _ HL HA H).
   - exact (done_hist_step _ _ _ _ W HD H).
-  - exact (leave_hist_step _ _ _ _ W HL HV H).
+  - exact (leave_hist_step _ _ _ _ Hex W HL HV H).
+  - exact (new_logged_step _ _ _ _ HN H).
 Qed.
 
 Lemma hinv_exec : forall tr s, exec tr = Some s -> hinv tr s.
 Proof.
   intros tr s H. unfold exec in H.
   apply (invariant_hist _ _ step hinv init hinv_init) with (tr := tr) (s := s); [|exact H].
-  intros h s0 l s1 _ HI Hs. exact (hinv_step _ _ _ _ HI Hs).
+  intros h s0 l s1 Hr HI Hs. exact (hinv_step _ _ _ _ Hr HI Hs).
 Qed.
-
-Lemma exec_snoc : forall tr l s, exec (tr ++ [l]) = Some s -> exists s1, exec tr = Some s1 /\ step s1 l = Some s.
-Proof. intros tr l s H. unfold exec in *. apply run_snoc_some in H. exact H. Qed.
 
 (* ---- the return values of Join and Leave ---- *)
 
-Lemma join_success_after_self_presence : forall tr s k a,
-  exec (tr ++ [LRet k OSuccess]) = Some s -> In (LCall k KJoin a) tr ->
-  exists t1 t2 t3, tr = t1 ++ LCall k KJoin a :: t2 ++ LDeliver (PresAvail a) :: t3.
+(* Join on Channel h returned success: after the call started, an available
+   presence from h's address was handled, it was looked up while h was the
+   registered Channel for that address (state s1), and nothing else was delivered
+   and no Channel registered between that and the return. *)
+Lemma join_success_after_self_presence : forall tr s k h,
+  exec (tr ++ [LRet k OSuccess]) = Some s -> In (LCall k KJoin h) tr ->
+  exists t1 t2 t3 a s1,
+    tr = t1 ++ LCall k KJoin h :: t2 ++ LDeliver (PresAvail a) :: t3 /\
+    exec (t1 ++ LCall k KJoin h :: t2) = Some s1 /\
+    table s1 a = Some h /\ ch_addr (chans s1 h) = a /\
+    (forall st, ~ In (LDeliver st) t3) /\ (forall k' h', ~ In (LCall k' KJoin h') t3) /\ (forall h' a', ~ In (LNew h' a') t3).
 Proof.
-  intros tr s k a H Hin. apply exec_snoc in H. destruct H as [s1 [H1 H2]].
-  destruct (hinv_exec tr s1 H1) as [W HL HB HO _ _ _].
-  destruct (HB k KJoin a Hin) as [c [Hc [Hk Ha]]].
+  intros tr s k h H Hin. apply exec_snoc in H. destruct H as [s1 [H1 H2]].
+  destruct (hinv_exec tr s1 H1) as [W C HL HB HO _ _ _ _].
+  destruct (HB k KJoin h Hin) as [c [Hc [Hk Ha]]].
   cbn [step] in H2. rewrite Hc in H2. unfold ret in H2. rewrite Hk in H2.
   destruct (c_phase c); try discriminate H2.
   destruct (serve_eqb (srv s1) (SOffer k)) eqn:Es; [|discriminate H2].
   apply serve_eqb_eq in Es.
-  destruct (HO k Es) as [c1 [h1 [h2 [Hc1 [_ [Hh [Hin1 _]]]]]]].
-  rewrite Hc in Hc1. injection Hc1 as <-. rewrite Ha in Hh, Hin1.
-  apply in_split in Hin1. destruct Hin1 as [t1 [t2 ->]].
-  exists t1, t2, h2. rewrite Hh. rewrite <- app_assoc. reflexivity.
+  destruct (HO k Es) as [c1 [a [h1 [h2 [s0 [Hc1 [_ [Hh [He [Ht [Hin1 [Hno [Hnd Hnn]]]]]]]]]]]]].
+  rewrite Hc in Hc1. injection Hc1 as <-. rewrite Ha in Ht, Hin1.
+  apply in_split in Hin1. destruct Hin1 as [t1 [t2 Hs1]].
+  exists t1, t2, h2, a, s0. split; [|split; [|split; [|split; [|split; [|split]]]]]; try assumption.
+  - rewrite Hh, Hs1. rewrite <- app_assoc. reflexivity.
+  - rewrite <- Hs1. exact He.
+  - exact (proj2 (wc_table _ (wfc_exec h1 s0 He) _ _ Ht)).
 Qed.
 
-Lemma leave_success_after_unavailable : forall tr s k a,
-  exec (tr ++ [LRet k OSuccess]) = Some s -> In (LCall k KLeave a) tr ->
-  exists t1 t2 t3, tr = t1 ++ LCall k KLeave a :: t2 ++ LDeliver (PresUnavail a) :: t3.
+Lemma leave_success_after_unavailable : forall tr s k h,
+  exec (tr ++ [LRet k OSuccess]) = Some s -> In (LCall k KLeave h) tr ->
+  exists t1 t2 t3 a s1,
+    tr = t1 ++ LCall k KLeave h :: t2 ++ LDeliver (PresUnavail a) :: t3 /\
+    exec (t1 ++ LCall k KLeave h :: t2) = Some s1 /\ table s1 a = Some h /\ ch_addr (chans s1 h) = a.
 Proof.
-  intros tr s k a H Hin. apply exec_snoc in H. destruct H as [s1 [H1 H2]].
-  destruct (hinv_exec tr s1 H1) as [W HL HB _ _ _ HV].
-  destruct (HB k KLeave a Hin) as [c [Hc [Hk Ha]]].
+  intros tr s k h H Hin. apply exec_snoc in H. destruct H as [s1 [H1 H2]].
+  destruct (hinv_exec tr s1 H1) as [W C HL HB _ _ _ HV _].
+  destruct (HB k KLeave h Hin) as [c [Hc [Hk Ha]]].
   cbn [step] in H2. rewrite Hc in H2. unfold ret in H2. rewrite Hk in H2.
   destruct (c_phase c) eqn:Ep; try discriminate H2.
-  destruct (ch_dep (chans s1 (c_addr c))) eqn:Ed; [|discriminate H2].
-  destruct (HV k c Hc Hk Ep Ed) as [h1 [h2 [h3 Hh]]]. rewrite Ha in Hh.
-  exists h1, h2, h3. exact Hh.
+  destruct (ch_dep (chans s1 (c_chan c))) eqn:Ed; [|discriminate H2].
+  destruct (HV k c Hc Hk Ep Ed) as [h1 [h2 [h3 [a [s0 [Hh [He Ht]]]]]]]. rewrite Ha in Hh, He, Ht.
+  exists h1, h2, h3, a, s0. repeat split; try assumption.
+  exact (proj2 (wc_table _ (wfc_exec _ s0 He) _ _ Ht)).
 Qed.
 
 Lemma stanza_error_after_error_reply : forall tr s k,
@@ -740,7 +1068,7 @@ Lemma stanza_error_after_error_reply : forall tr s k,
   exists t1 t2 kd a, tr = t1 ++ LDeliver (ErrReply k) :: t2 /\ In (LCall k kd a) t1.
 Proof.
   intros tr s k H. apply exec_snoc in H. destruct H as [s1 [H1 H2]].
-  destruct (hinv_exec tr s1 H1) as [_ _ _ _ HA _ _].
+  destruct (hinv_exec tr s1 H1) as [_ _ _ _ _ HA _ _ _].
   cbn [step] in H2. destruct (calls s1 k) as [c|]; [|discriminate H2]. unfold ret in H2.
   destruct (c_phase c); try discriminate H2.
   destruct (serve_eqb (srv s1) (SAwait k)) eqn:Es; [|discriminate H2].
@@ -751,7 +1079,7 @@ Lemma ctx_error_only_if_cancelled : forall tr s k,
   exec (tr ++ [LRet k OCtxErr]) = Some s -> In (LCancel k) tr.
 Proof.
   intros tr s k H. apply exec_snoc in H. destruct H as [s1 [H1 H2]].
-  destruct (hinv_exec tr s1 H1) as [_ _ _ _ _ HD _].
+  destruct (hinv_exec tr s1 H1) as [_ _ _ _ _ _ HD _ _].
   cbn [step] in H2. destruct (calls s1 k) as [c|] eqn:Hc; [|discriminate H2]. unfold ret in H2.
   destruct (c_done c) eqn:Ed; [|discriminate H2].
   apply (HD k c Hc Ed). destruct (c_phase c); try reflexivity. discriminate H2.
@@ -766,54 +1094,66 @@ Proof.
 Qed.
 (* ---------------------------------------------------------------- rooms never joined *)
 
-Lemma take_entry : forall s a x, ch_entry (chans (take s a) x) = ch_entry (chans s x).
+(* a table entry for address a is a Channel that was made for a *)
+Lemma entry_needs_channel : forall tr s a h, exec tr = Some s -> table s a = Some h -> In (LNew h a) tr.
 Proof.
-  intros s a x. rewrite take_unfold. destruct (ch_jq (chans s a)); simp_state; [reflexivity|].
-  destruct (Nat.eqb x a) eqn:E; [apply Nat.eqb_eq in E; subst|]; reflexivity.
-Qed.
-
-Lemma step_entry : forall s l s' a, step s l = Some s' -> ch_entry (chans s' a) = true ->
-  ch_entry (chans s a) = true \/ exists k, l = LCall k KJoin a.
-Proof.
-  intros s l s' a H He.
-  destruct l as [k0 kd a0|k0|k0|k0 o|k0|st|  |k0|a0 b]; step_leaves H; simp_state; rewrite ?take_entry in He;
-    try solve [left; exact He];
-    try solve [eqb_cases; subst; simp_state; try discriminate He;
-               first [left; exact He | right; eexists; reflexivity]].
-Qed.
-
-Lemma entry_needs_join_call : forall tr s a, exec tr = Some s -> ch_entry (chans s a) = true ->
-  exists k, In (LCall k KJoin a) tr.
-Proof.
-  intros tr s a H. unfold exec in H. revert s H.
-  apply (invariant_hist _ _ step (fun h s => ch_entry (chans s a) = true -> exists k, In (LCall k KJoin a) h) init).
-  - cbn. discriminate.
-  - intros h s l s' _ IH Hs He. destruct (step_entry _ _ _ _ Hs He) as [He0|[k ->]].
-    + destruct (IH He0) as [k Hin]. exists k. apply in_or_app. left. exact Hin.
-    + exists k. apply in_or_app. right. left. reflexivity.
+  intros tr s a h H Ht. destruct (hinv_exec tr s H) as [_ C _ _ _ _ _ _ HN].
+  destruct (wc_table _ C _ _ Ht) as [Hm Ha]. rewrite <- Ha. exact (HN h Hm).
 Qed.
 
 Lemma unjoined_rooms_ignored : forall tr s a,
-  exec tr = Some s -> (forall k, ~ In (LCall k KJoin a) tr) -> srv s = SIdle ->
+  exec tr = Some s -> (forall h, ~ In (LNew h a) tr) -> srv s = SIdle ->
   step s (LDeliver (PresAvail a)) = Some s /\ step s (LDeliver (PresUnavail a)) = Some s /\
   step s (LDeliver (PresBad a)) = Some s.
 Proof.
   intros tr s a H Hno Hs.
-  assert (He : ch_entry (chans s a) = false).
-  { destruct (ch_entry (chans s a)) eqn:E; [|reflexivity].
-    destruct (entry_needs_join_call tr s a H E) as [k Hin]. exfalso. exact (Hno k Hin). }
+  assert (He : table s a = None).
+  { destruct (table s a) as [h|] eqn:E; [|reflexivity].
+    exfalso. exact (Hno h (entry_needs_channel tr s a h H E)). }
   cbn [step]. rewrite Hs. cbn [deliver]. rewrite He. repeat split; reflexivity.
 Qed.
 
 (* ... whereas the same undecodable payload from a managed address is an error
    that ends the Serve loop *)
-Lemma managed_bad_payload_ends_serve : forall s a,
-  srv s = SIdle -> ch_entry (chans s a) = true ->
+Lemma managed_bad_payload_ends_serve : forall s a h,
+  srv s = SIdle -> table s a = Some h ->
   exists s', step s (LDeliver (PresBad a)) = Some s' /\ srv s' = SDead /\
              forall st, step s' (LDeliver st) = None.
 Proof.
-  intros s a Hs He. eexists. cbn [step]. rewrite Hs. cbn [deliver]. rewrite He.
+  intros s a h Hs He. eexists. cbn [step]. rewrite Hs. cbn [deliver]. rewrite He.
   split; [reflexivity|]. split; [reflexivity|]. intros st. reflexivity.
+Qed.
+
+(* ---------------------------------------------------------------- registration *)
+
+(* every join call registers its Channel for its address before anything else
+   happens: last registration wins *)
+Lemma join_call_registers : forall s k h s',
+  step s (LCall k KJoin h) = Some s' -> table s' (ch_addr (chans s h)) = Some h /\ ch_addr (chans s' h) = ch_addr (chans s h).
+Proof.
+  intros s k h s' H. step_leaves H. simp_state. rewrite Nat.eqb_refl. split; reflexivity.
+Qed.
+
+Lemma new_channel_registers : forall s h a s',
+  step s (LNew h a) = Some s' -> table s' a = Some h /\ ch_addr (chans s' h) = a /\ ch_joined (chans s' h) = false.
+Proof.
+  intros s h a s' H. step_leaves H. pose proof (andb_true_l _ _ E) as Eh. apply Nat.eqb_eq in Eh. subst h.
+  simp_state. rewrite !Nat.eqb_refl. repeat split; reflexivity.
+Qed.
+
+(* a self-presence that arrives while ANOTHER Channel is registered for the
+   address cannot complete a join on this one: the handler offers, for the whole
+   handling of that presence, only to join contexts of the registered Channel *)
+Lemma presence_goes_to_registered_channel : forall tr s a h s' k c,
+  exec tr = Some s -> table s a = Some h ->
+  step s (LDeliver (PresAvail a)) = Some s' -> srv s' = SOffer k -> calls s' k = Some c -> c_chan c = h.
+Proof.
+  intros tr s a h s' k c H Ht Hs Ho Hc.
+  pose proof (wf_exec tr s H) as W.
+  cbn [step] in Hs. destruct (srv s); try discriminate Hs. injection Hs as <-. cbn [deliver] in *. rewrite Ht in *.
+  rewrite take_unfold in *. destruct (ch_jq (chans s h)) as [|kk rest] eqn:Eq; simp_state; [discriminate Ho|].
+  injection Ho as ->. destruct (wf_jq _ W h k) as [c0 [Hc0 [Ha0 _]]]; [rewrite Eq; left; reflexivity|].
+  rewrite Hc0 in Hc. injection Hc as <-. exact Ha0.
 Qed.
 
 (* ---------------------------------------------------------------- replies are honoured *)
@@ -835,17 +1175,17 @@ Proof.
   - intros Hk. cbn [step]. simp_state. rewrite Nat.eqb_refl. unfold ret. simp_state. rewrite Hp, Hk. reflexivity.
 Qed.
 
-Lemma self_presence_completes_join : forall s k c a rest,
-  srv s = SIdle -> ch_entry (chans s a) = true -> ch_jq (chans s a) = k :: rest ->
-  calls s k = Some c -> c_kind c = KJoin -> c_addr c = a -> c_phase c = PWait -> c_done c = false ->
+Lemma self_presence_completes_join : forall s k c a h rest,
+  srv s = SIdle -> table s a = Some h -> ch_jq (chans s h) = k :: rest ->
+  calls s k = Some c -> c_kind c = KJoin -> c_chan c = h -> c_phase c = PWait -> c_done c = false ->
   exists s1 s2,
     step s (LDeliver (PresAvail a)) = Some s1 /\
     step s1 (LRet k OSuccess) = Some s2 /\
-    ch_joined (chans s2 a) = true /\
+    ch_joined (chans s2 h) = true /\
     step s1 (LRet k OCtxErr) = None /\
     step s1 (LRet k OStanzaErr) = None.
 Proof.
-  intros s k c a rest Hs He Hq Hc Hk Ha Hp Hd.
+  intros s k c a h rest Hs He Hq Hc Hk Ha Hp Hd.
   eexists. eexists. split; [|split; [|split; [|split]]].
   - cbn [step]. rewrite Hs. cbn [deliver]. rewrite He. rewrite take_unfold, Hq. reflexivity.
   - cbn [step]. simp_state. rewrite Hc. unfold ret. simp_state. rewrite Hp, Hk. cbn [serve_eqb]. rewrite Nat.eqb_refl.
@@ -855,15 +1195,15 @@ Proof.
   - cbn [step]. simp_state. rewrite Hc. unfold ret. rewrite Hp. reflexivity.
 Qed.
 
-Lemma unavailable_completes_leave : forall s k c a,
-  srv s = SIdle -> ch_entry (chans s a) = true ->
-  calls s k = Some c -> c_kind c = KLeave -> c_addr c = a -> c_phase c = PWait ->
+Lemma unavailable_completes_leave : forall s k c a h,
+  srv s = SIdle -> table s a = Some h ->
+  calls s k = Some c -> c_kind c = KLeave -> c_chan c = h -> c_phase c = PWait ->
   exists s1 s2,
     step s (LDeliver (PresUnavail a)) = Some s1 /\
-    ch_joined (chans s1 a) = false /\ ch_entry (chans s1 a) = false /\
+    ch_joined (chans s1 h) = false /\ table s1 a = None /\
     step s1 (LRet k OSuccess) = Some s2.
 Proof.
-  intros s k c a Hs He Hc Hk Ha Hp.
+  intros s k c a h Hs He Hc Hk Ha Hp.
   eexists. eexists. split; [|split; [|split]].
   - cbn [step]. rewrite Hs. cbn [deliver]. rewrite He. reflexivity.
   - simp_state. rewrite Nat.eqb_refl. reflexivity.
@@ -872,7 +1212,7 @@ Proof.
 Qed.
 (* ---------------------------------------------------------------- one call in flight per channel *)
 
-Lemma idle_spec : forall s a k c, idle s a = true -> k < ncalls s -> calls s k = Some c -> c_addr c = a ->
+Lemma idle_spec : forall s a k c, idle s a = true -> k < ncalls s -> calls s k = Some c -> c_chan c = a ->
   is_ret (c_phase c) = true.
 Proof.
   intros s a k c Hi Hk Hc Ha. unfold idle in Hi. rewrite forallb_forall in Hi.
@@ -881,16 +1221,16 @@ Proof.
 Qed.
 
 Definition uniq (s : state) : Prop :=
-  forall k1 k2 c1 c2, calls s k1 = Some c1 -> calls s k2 = Some c2 -> c_addr c1 = c_addr c2 ->
+  forall k1 k2 c1 c2, calls s k1 = Some c1 -> calls s k2 = Some c2 -> c_chan c1 = c_chan c2 ->
   is_ret (c_phase c1) = false -> is_ret (c_phase c2) = false -> k1 = k2.
 
 Lemma step_inflight_back : forall s l s' k c', wf s ->
   step s l = Some s' -> calls s' k = Some c' -> is_ret (c_phase c') = false ->
-  (exists c, calls s k = Some c /\ c_addr c = c_addr c' /\ is_ret (c_phase c) = false) \/
-  (k = ncalls s /\ idle s (c_addr c') = true).
+  (exists c, calls s k = Some c /\ c_chan c = c_chan c' /\ is_ret (c_phase c) = false) \/
+  (k = ncalls s /\ idle s (c_chan c') = true).
 Proof.
   intros s l s' k c' W H Hc Hp.
-  destruct l as [k0 kd a|k0|k0|k0 o|k0|st|  |k0|a b]; step_leaves H; simp_state; rewrite ?take_calls in Hc;
+  destruct l as [hn an|k0 kd a|k0|k0|k0 o|k0|st|  |k0|a b]; step_leaves H; simp_state; rewrite ?take_calls in Hc;
     try solve [left; exists c'; auto];
     try solve [eqb_cases; subst; same_call; simp_state; try discriminate;
                first [ left; eexists; split; [eassumption|split; [reflexivity|]];
@@ -928,38 +1268,41 @@ Qed.
 (* the departure notification is kept for the waiting Leave: no step other than
    the return of that call consumes it *)
 Lemma departure_kept : forall s l s' k c,
-  wf s -> uniq s -> step s l = Some s' ->
-  calls s k = Some c -> c_kind c = KLeave -> c_phase c = PWait -> ch_dep (chans s (c_addr c)) = true ->
+  wf s -> wfc s -> uniq s -> step s l = Some s' ->
+  calls s k = Some c -> c_kind c = KLeave -> c_phase c = PWait -> ch_dep (chans s (c_chan c)) = true ->
   (forall o, l <> LRet k o) ->
-  ch_dep (chans s' (c_addr c)) = true /\
-  exists c', calls s' k = Some c' /\ c_kind c' = KLeave /\ c_phase c' = PWait /\ c_addr c' = c_addr c.
+  ch_dep (chans s' (c_chan c)) = true /\
+  exists c', calls s' k = Some c' /\ c_kind c' = KLeave /\ c_phase c' = PWait /\ c_chan c' = c_chan c.
 Proof.
-  intros s l s' k c W U H Hc Hk Hp Hd Hl.
-  destruct l as [k0 kd a|k0|k0|k0 o|k0|st|  |k0|a b]; step_leaves H; simp_state;
+  intros s l s' k c W C U H Hc Hk Hp Hd Hl.
+  destruct l as [hn an|k0 kd a|k0|k0|k0 o|k0|st|  |k0|a b]; step_leaves H; simp_state;
     rewrite ?take_dep, ?take_calls.
   all: try solve [exfalso; eapply Hl; reflexivity].
   all: try solve [split;
     [ eqb_cases; subst; simp_state; try assumption; congruence
     | eqb_cases; subst; same_call; simp_state; try congruence;
       eexists; (split; [first [reflexivity|eassumption]|auto]) ]].
+  - (* a new channel: not the one of k *)
+    split; [|exists c; auto].
+    destruct (Nat.eqb (c_chan c) (nchans s)) eqn:Ea; [|exact Hd]. apply Nat.eqb_eq in Ea. exfalso.
+    pose proof (wc_made _ C _ (wc_call _ C _ _ Hc)) as Hlt. lia.
   - (* a join starts *)
     assert (Hne : Nat.eqb k (ncalls s) = false) by (apply Nat.eqb_neq; apply (wf_bound _ W) in Hc; lia).
-    rewrite Hne. split; [|exists c; auto].
-    destruct (Nat.eqb (c_addr c) a) eqn:Ea; [|exact Hd]. apply Nat.eqb_eq in Ea. subst a. simp_state. exact Hd.
+    rewrite Hne. split; [exact Hd|exists c; auto].
   - (* a leave starts on the same channel: impossible, k is in flight *)
     assert (Hne : Nat.eqb k (ncalls s) = false) by (apply Nat.eqb_neq; apply (wf_bound _ W) in Hc; lia).
     rewrite Hne. split; [|exists c; auto].
-    destruct (Nat.eqb (c_addr c) a) eqn:Ea; [|exact Hd]. apply Nat.eqb_eq in Ea. subst a. exfalso.
+    destruct (Nat.eqb (c_chan c) a) eqn:Ea; [|exact Hd]. apply Nat.eqb_eq in Ea. subst a. exfalso.
     pose proof (idle_spec _ _ _ _ (andb_true_r' _ _ E) (wf_bound _ W _ _ Hc) Hc eq_refl) as R.
     rewrite Hp in R. discriminate R.
   - (* another Leave takes a notification: it would be in flight on the same channel *)
     destruct (Nat.eqb k k0) eqn:Ek; [apply Nat.eqb_eq in Ek; subst k0; exfalso; eapply Hl; reflexivity|].
     apply Nat.eqb_neq in Ek. split; [|exists c; auto].
-    destruct (Nat.eqb (c_addr c) (c_addr c0)) eqn:Ea; [|exact Hd]. apply Nat.eqb_eq in Ea. exfalso. apply Ek.
+    destruct (Nat.eqb (c_chan c) (c_chan c0)) eqn:Ea; [|exact Hd]. apply Nat.eqb_eq in Ea. exfalso. apply Ek.
     apply (U k k0 c c0 Hc E Ea); [rewrite Hp|rewrite E1]; reflexivity.
   - destruct (Nat.eqb k k0) eqn:Ek; [apply Nat.eqb_eq in Ek; subst k0; exfalso; eapply Hl; reflexivity|].
     split; [|exists c; auto].
-    destruct (Nat.eqb (c_addr c) (c_addr c0)) eqn:Ea; [|exact Hd]. apply Nat.eqb_eq in Ea. simp_state. rewrite <- Ea. exact Hd.
+    destruct (Nat.eqb (c_chan c) (c_chan c0)) eqn:Ea; [|exact Hd]. apply Nat.eqb_eq in Ea. simp_state. rewrite <- Ea. exact Hd.
   - destruct (Nat.eqb k k0) eqn:Ek; [apply Nat.eqb_eq in Ek; subst k0; exfalso; eapply Hl; reflexivity|].
     split; [exact Hd|exists c; auto].
 Qed.
@@ -970,7 +1313,7 @@ Lemma ret_permanent_step : forall s l s' k c, wf s ->
   exists c', calls s' k = Some c' /\ is_ret (c_phase c') = true.
 Proof.
   intros s l s' k c W H Hc Hp.
-  destruct l as [k0 kd a|k0|k0|k0 o|k0|st|  |k0|a b]; step_leaves H; simp_state; rewrite ?take_calls;
+  destruct l as [hn an|k0 kd a|k0|k0|k0 o|k0|st|  |k0|a b]; step_leaves H; simp_state; rewrite ?take_calls;
     try solve [exists c; auto];
     try solve [eqb_cases; subst; same_call; simp_state;
                repeat match goal with E : c_phase ?c = _, P : is_ret (c_phase ?c) = true |- _ => rewrite E in P; try discriminate P end;
@@ -1040,30 +1383,30 @@ Lemma error_reply_returned_r : forall tr s k c,
     (c_kind c = KJoin -> step s1 (LRet k OSuccess) = None).
 Proof. intros tr s k c _. exact (error_reply_returned s k c). Qed.
 
-Lemma self_presence_completes_join_r : forall tr s k c a rest,
+Lemma self_presence_completes_join_r : forall tr s k c a h rest,
   exec tr = Some s ->
-  srv s = SIdle -> ch_entry (chans s a) = true -> ch_jq (chans s a) = k :: rest ->
-  calls s k = Some c -> c_kind c = KJoin -> c_addr c = a -> c_phase c = PWait -> c_done c = false ->
+  srv s = SIdle -> table s a = Some h -> ch_jq (chans s h) = k :: rest ->
+  calls s k = Some c -> c_kind c = KJoin -> c_chan c = h -> c_phase c = PWait -> c_done c = false ->
   exists s1 s2,
     step s (LDeliver (PresAvail a)) = Some s1 /\
     step s1 (LRet k OSuccess) = Some s2 /\
-    ch_joined (chans s2 a) = true /\
+    ch_joined (chans s2 h) = true /\
     step s1 (LRet k OCtxErr) = None /\
     step s1 (LRet k OStanzaErr) = None.
-Proof. intros tr s k c a rest _. exact (self_presence_completes_join s k c a rest). Qed.
+Proof. intros tr s k c a h rest _. exact (self_presence_completes_join s k c a h rest). Qed.
 
-Lemma stale_context_skipped_r : forall tr s k0 c0 k c a rest,
+Lemma stale_context_skipped_r : forall tr s k0 c0 k c a h rest,
   exec tr = Some s ->
-  srv s = SIdle -> ch_entry (chans s a) = true -> ch_jq (chans s a) = k0 :: k :: rest ->
-  calls s k0 = Some c0 -> c_done c0 = true -> c_addr c0 = a ->
-  calls s k = Some c -> c_kind c = KJoin -> c_addr c = a -> c_phase c = PQueued ->
+  srv s = SIdle -> table s a = Some h -> ch_jq (chans s h) = k0 :: k :: rest ->
+  calls s k0 = Some c0 -> c_done c0 = true -> c_chan c0 = h ->
+  calls s k = Some c -> c_kind c = KJoin -> c_chan c = h -> c_phase c = PQueued ->
   k <> k0 -> mem k rest = false ->
   exists s1 s2 s3 s4,
     step s (LDeliver (PresAvail a)) = Some s1 /\ step s1 (LPushed k) = Some s2 /\
     step s2 LSeeDone = Some s3 /\ step s3 (LRet k OSuccess) = Some s4 /\
-    ch_joined (chans s4 a) = true /\ cb_pres s4 = cb_pres s.
+    ch_joined (chans s4 h) = true /\ cb_pres s4 = cb_pres s.
 Proof.
-  intros tr s k0 c0 k c a rest _ Hs He Hq Hc0 Hd0 Ha0 Hc Hk Ha Hp Hne Hm.
+  intros tr s k0 c0 k c a h rest _ Hs He Hq Hc0 Hd0 Ha0 Hc Hk Ha Hp Hne Hm.
   assert (E1 : Nat.eqb k0 k = false) by (apply Nat.eqb_neq; auto).
   do 4 eexists. split; [|split; [|split; [|split; [|split]]]].
   - cbn [step]. rewrite Hs. cbn [deliver]. rewrite He. rewrite take_unfold, Hq. reflexivity.
@@ -1074,24 +1417,32 @@ Proof.
   - reflexivity.
 Qed.
 
-Lemma unavailable_completes_leave_r : forall tr s k c a,
+Lemma unavailable_completes_leave_r : forall tr s k c a h,
   exec tr = Some s ->
-  srv s = SIdle -> ch_entry (chans s a) = true ->
-  calls s k = Some c -> c_kind c = KLeave -> c_addr c = a -> c_phase c = PWait ->
+  srv s = SIdle -> table s a = Some h ->
+  calls s k = Some c -> c_kind c = KLeave -> c_chan c = h -> c_phase c = PWait ->
   exists s1 s2,
     step s (LDeliver (PresUnavail a)) = Some s1 /\
-    ch_joined (chans s1 a) = false /\ ch_entry (chans s1 a) = false /\
+    ch_joined (chans s1 h) = false /\ table s1 a = None /\
     step s1 (LRet k OSuccess) = Some s2.
-Proof. intros tr s k c a _. exact (unavailable_completes_leave s k c a). Qed.
+Proof. intros tr s k c a h _. exact (unavailable_completes_leave s k c a h). Qed.
 
 Lemma departure_kept_r : forall tr s l s' k c,
   exec tr = Some s -> step s l = Some s' ->
-  calls s k = Some c -> c_kind c = KLeave -> c_phase c = PWait -> ch_dep (chans s (c_addr c)) = true ->
+  calls s k = Some c -> c_kind c = KLeave -> c_phase c = PWait -> ch_dep (chans s (c_chan c)) = true ->
   (forall o, l <> LRet k o) ->
-  ch_dep (chans s' (c_addr c)) = true /\
-  exists c', calls s' k = Some c' /\ c_kind c' = KLeave /\ c_phase c' = PWait /\ c_addr c' = c_addr c.
+  ch_dep (chans s' (c_chan c)) = true /\
+  exists c', calls s' k = Some c' /\ c_kind c' = KLeave /\ c_phase c' = PWait /\ c_chan c' = c_chan c.
 Proof.
-  intros tr s l s' k c H. exact (departure_kept s l s' k c (wf_exec tr s H) (uniq_exec tr s H)).
+  intros tr s l s' k c H. exact (departure_kept s l s' k c (wf_exec tr s H) (wfc_exec tr s H) (uniq_exec tr s H)).
+Qed.
+
+(* every accepted join call leaves its Channel registered for its address *)
+Lemma join_call_registers_r : forall tr s k h,
+  exec (tr ++ [LCall k KJoin h]) = Some s -> table s (ch_addr (chans s h)) = Some h.
+Proof.
+  intros tr s k h H. apply exec_snoc in H. destruct H as [s1 [_ H2]].
+  destruct (join_call_registers _ _ _ _ H2) as [Ht Ha]. rewrite Ha. exact Ht.
 Qed.
 
 (* ---------------------------------------------------------------- tables read from the source *)
@@ -1122,6 +1473,11 @@ Proof. vm_compute. split; reflexivity. Qed.
 (* HandlePresence consults the table and drops the presence of an address that
    is not managed BEFORE it decodes the payload ([deliver] on [PresBad]) *)
 Lemma tbl_lookup_before_decode : muc_presence_lookup_before_decode = true.
+Proof. vm_compute. reflexivity. Qed.
+(* Channel.JoinPresence registers the Channel under the address of the request
+   under no condition but those of the enclosing function body (the model's
+   LCall _ KJoin h sets the table entry whatever the state of h) *)
+Lemma tbl_join_registers_unconditionally : muc_join_registers_unconditionally = true.
 Proof. vm_compute. reflexivity. Qed.
 Lemma tbl_joined_returns_flag : muc_joined_returns_flag = true.
 Proof. vm_compute. reflexivity. Qed.
